@@ -4,47 +4,59 @@
    (n_sent_answers) is compared with a ghost history computed from what the node RECEIVES
    (the frames that pass the connection's gate) and what it QUEUES (OQueue outputs carrying answers).
 
-   Attribution of an answer to an origin host.  The ghost keeps a table of PENDING requests
-   (hop-by-hop id, end-to-end id) -> origin host:
-     - when a request with a declared Origin-Host attribute is received (it passes the gate of an existing
-       connection), its pair is bound to its origin (an absent value counts as the origin "<none>", as in
-       the implementation); an older pending request with the same pair is FORGOTTEN (the later
-       request takes the pair over: this is what _receive_message does, so no distinctness hypothesis on
-       the pairs of unanswered requests is needed; under that hypothesis nothing is ever forgotten);
-     - when an answer is queued (OQueue cid a, o_req a = false), it is attributed to the origin bound to
-       (o_hbh a, o_e2e a) in the table, the end-to-end id is appended to that origin's history and the
-       binding is dropped; an answer whose pair is not pending is attributed to nobody.
+   Attribution of an answer to an origin host.  The ghost keeps a table of PENDING requests, keyed like the node's
+   origin table (hop-by-hop identifiers are unique per connection only):
+   (connection id, hop-by-hop id, end-to-end id) -> origin host:
+     - when a request with a declared Origin-Host attribute is received on connection cid (it passes the gate of an
+       existing connection), its key (cid, pair) is bound to its origin (an absent value counts as the origin
+       "<none>", as in the implementation); an older pending request with the SAME key (same connection, same pair)
+       is FORGOTTEN (the later request takes the key over: this is what _receive_message does, so no distinctness
+       hypothesis on the pairs of unanswered requests is needed; under that hypothesis nothing is ever forgotten);
+       a pending request with the same pair on ANOTHER connection stays
+       (C17_history_example_same_pair_two_connections);
+     - when an answer is queued on connection cid (OQueue cid a, o_req a = false), it is attributed to the origin
+       bound to (cid, o_hbh a, o_e2e a) in the table, the end-to-end id is appended to that origin's history and
+       exactly that binding is dropped; an answer whose key is not pending is attributed to nobody.
      - when connections are closed (remove_peer_connection), the requests they had delivered to an application
        and that are still unanswered will never be answered: the node pops the host's entry of the per-host
-       table n_peer_waiting and forgets these pairs in the origin table too.  The ghost does the same: the
-       pairs listed under the hosts that LEFT n_peer_waiting (`gone_between n n'` = `lost`, read off the
-       per-host table before and after) are dropped from the pending table (ghost_drop).  A host leaves
-       the table only when one of its connections is removed (`keeps`, keeps_spec).  Without this drop a
-       stale binding could attribute a later answer that reuses the pair to an origin for which the node
-       records nothing (C17_history_example_close).
-     - a request that will never be answered is FORGOTTEN (Node.drop_origin; ghost_unbind removes every binding
-       of its pair, like the filter of record_answer):
+       table n_peer_waiting and forgets, in the origin table, the entries OF THE CLOSING CONNECTION whose pair was
+       listed there.  The ghost does the same (ghost_drop / `closing`): it reads the connections that were
+       closed, in order, off the OClose outputs (`closes`), and the host identities (c_host, `host_of`) and the
+       per-host table off the node state at the beginning of the phase.  The order matters: connections may carry
+       the same host identity (all connections carry "" before their capabilities exchange), and the first of them
+       to be removed takes the host's list with it (`closing` pops the host's entry as the node does).  Without
+       this drop a stale binding could attribute a later answer that reuses the key to an origin for which the
+       node records nothing (C17_history_example_close).  `keeps n cl n'` / keeps_spec: every node function only
+       removes the connections its OClose outputs name, in that order (kc).  A connection accepted while the node
+       is stopping is refused with an OClose for an identifier that never was a connection: nothing happens.
+     - a request that will never be answered is FORGOTTEN (Node.drop_origin; ghost_unbind removes the binding
+       of its key, like the filter of record_answer):
          * an unexpected CER: a capabilities-exchange request that reaches _receive_message on a connection whose
            state is not CONNECTED (`cer_unexpected`, read off the node state at that frame) is either answered with
            an error (5005 / 5012) or ignored; after the outputs of its frame (the error answer, if any, is
-           attributed first) its pair is unbound (C17_history_example_cer_ignored);
+           attributed first) its key (cid, pair) is unbound (C17_history_example_cer_ignored);
          * an application's answer that is not routable (fst (route_answer n m) = None, trace entry
-           [ONotRoutable]) although a host was waiting for it in the per-host table (`waits`): the host's
-           connection is gone or no longer ready; the pair is unbound (C17_history_example_answer_not_routable).
+           [ONotRoutable]) although a host was waiting for it in the per-host table and a connection c carries that
+           host's identity (`waits` = Some (c_id c)): the connection is no longer ready; the key (c_id c, pair) is
+           unbound (C17_history_example_answer_not_routable).  When no connection carries the host's identity
+           nothing is unbound: the entries of a connection left with it (NodeC: C09_unroutable_releases_origin /
+           C09_unroutable_no_conn_keeps_origin).
    `answered n0 evs o` is the list of end-to-end ids attributed to o, oldest first.  The ghost never looks
    at n_origin_waiting or n_sent_answers: that its table coincides with n_origin_waiting is part of the
    invariant (C17_history_pending).  Of the node's state it reads which frames pass the gate
    (`received`), frame by frame (a network read may hold several frames, and the gate of the second
    depends on what the first did): ghost_frames; there also whether the frame's connection is awaiting a CER
-   (c_state); the per-host table n_peer_waiting at the points where connections may have been closed in
-   between; and, for an application's answer, whether Node.route_answer finds a connection for it.  Order within one event:
+   (c_state); the host identities of the connections and the per-host table n_peer_waiting at the beginning of every
+   phase in which connections may be closed; whether the node is stopping when a connection is accepted; and, for an
+   application's answer, whether Node.route_answer finds a connection for it.  Order within one event:
      network read    drop (the I/O thread finishes its iteration: n -> read_state), then per frame
                      [bind the request; drop (CER election, CEA/DPA handling close connections before anything
                      is queued); see the outputs; unbind an unexpected CER], then drop (flush + I/O iteration
-                     afterwards);
-     answer of an application   routable: see the outputs, then drop relative to the state in which
-                     Node.route_answer has taken the pair out of the per-host table (the I/O thread runs after the
-                     answer is queued); not routable: unbind the pair if a host was waiting for it, else nothing;
+                     afterwards, from the state after the last frame);
+     answer of an application   routable: see the outputs, then drop from the state in which the answer has been
+                     queued (Node.route_answer and Node.send_message have taken the pair out of the per-host
+                     table; the I/O thread runs after the answer is queued); not routable: unbind the key if a
+                     host was waiting for it and has a connection, else nothing;
      any other event see the outputs (the trace entry; no answer among them), then drop.
    recv_trace_answers / answered_from_trace tie the frame-by-frame outputs back to the trace.
 
@@ -65,6 +77,10 @@
    no missing AVP) is needed for the rejection and for flag_irrelevant, not for no_false_duplicate (the
    routing function covers the 5005 case).  No hypothesis on the distinctness of pairs (see above;
    ghost_request_fresh, C17_history_example_pair_reuse). *)
+(* (Before the origin table was keyed by connection the pending table was list (Z * Z * string), keyed by the pair
+   alone; ghost_request / ghost_answer / ghost_unbind took no connection id, and ghost_drop dropped the pairs of
+   the hosts that had left the per-host table between two states (`gone_between`), whichever connection had
+   received them.) *)
 From DV Require Import Prelude.Base Model.Node Proofs.NodeB Proofs.NodeC Proofs.NodeD.
 From Coq Require Import String.
 
@@ -103,408 +119,386 @@ Qed.
 (* 1. what every function leaves alone, and what closing a connection drops *)
 (* ====================================================================== *)
 (* the per-host table of delivered, unanswered requests; what a closing connection takes with it *)
-(* `keeps n n'`: between n and n' some connections were removed, one after the other; each removal takes the
-   entry of the connection's host out of the per-host table and the pairs listed there out of the origin
-   table; windows and configuration stay (same4 / drop1).  keeps_spec: the net effect on the origin table is
-   ow_drop (lost pw pw'), computed from the per-host table before and after alone. *)
+(* `keeps n cl n'`: between n and n' the connections cl were removed, one after the other; each removal takes the
+   entry of the connection's host out of the per-host table and, out of the origin table, the entries OF THAT
+   CONNECTION whose pair was listed there; windows and configuration stay (same4 / drop1).  Two connections may
+   carry the same host identity: the first one removed takes the host's list, so the ORDER of the removals
+   matters; it is read off the OClose outputs (`closes`).  keeps_spec: the net effect on the origin table is
+   `closing`, computed from the host identities and the per-host table before, and the removals in order. *)
 Definition pw_t : Type := list (string * list (Z * Z)).
+Definition ow_t : Type := list (nat * Z * Z * string).
 Definition look (pw : pw_t) (host : string) : list (Z * Z) :=
   match List.find (fun e => String.eqb (fst e) host) pw with Some e => snd e | None => [] end.
-Definition ow_drop (gone : list (Z * Z)) (ow : list (Z * Z * string)) : list (Z * Z * string) :=
-  List.filter (fun x => let '(h, e, _) := x in negb (mem_zz (h, e) gone)) ow.
-Definition hosts (pw : pw_t) : list string := List.map fst pw.
-Definition mem_host (h : string) (l : list string) : bool := List.existsb (String.eqb h) l.
-Definition lost (pw pw' : pw_t) : list (Z * Z) :=
-  List.flat_map (look pw) (List.filter (fun h => negb (mem_host h (hosts pw'))) (hosts pw)).
+Definition pw_pop (pw : pw_t) (host : string) : pw_t :=
+  List.filter (fun e => negb (String.eqb (fst e) host)) pw.
+(* connection cid is removed while `gone` is waiting under its host *)
+Definition ow_close (cid : nat) (gone : list (Z * Z)) (ow : ow_t) : ow_t :=
+  List.filter (fun x => let '(k, h, e, _) := x in negb (Nat.eqb k cid && mem_zz (h, e) gone)) ow.
+(* the host identity of connection k ("" before the capabilities exchange, and for no connection) *)
+Definition hst (l : list conn) (k : nat) : string := match hostl l k with Some h => h | None => ""%string end.
+Definition host_of (n : node) (k : nat) : string := hst (n_conns n) k.
+(* the connections closed, in order *)
+Definition closes (outs : list output) : list nat :=
+  List.flat_map (fun o => match o with OClose c _ => [c] | _ => [] end) outs.
+Fixpoint closing (hf : nat -> string) (pw : pw_t) (cl : list nat) (ow : ow_t) : ow_t :=
+  match cl with
+  | [] => ow
+  | cid :: r => closing (fun k => if Nat.eqb k cid then ""%string else hf k) (pw_pop pw (hf cid)) r
+                        (ow_close cid (look pw (hf cid)) ow)
+  end.
 
 Definition same4 (n n' : node) : Prop :=
   n_peer_waiting n' = n_peer_waiting n /\ n_origin_waiting n' = n_origin_waiting n
-  /\ n_sent_answers n' = n_sent_answers n /\ n_cfg n' = n_cfg n.
-Definition drop1 (host : string) (n n' : node) : Prop :=
-  n_peer_waiting n' = List.filter (fun e => negb (String.eqb (fst e) host)) (n_peer_waiting n)
-  /\ n_origin_waiting n' = ow_drop (look (n_peer_waiting n) host) (n_origin_waiting n)
-  /\ n_sent_answers n' = n_sent_answers n /\ n_cfg n' = n_cfg n.
-Inductive keeps : node -> node -> Prop :=
-| k_same n n' : same4 n n' -> keeps n n'
-| k_drop host n n1 n' : drop1 host n n1 -> keeps n1 n' -> keeps n n'.
+  /\ n_sent_answers n' = n_sent_answers n /\ n_cfg n' = n_cfg n
+  /\ forall k, host_of n' k = host_of n k.
+Definition drop1 (cid : nat) (n n' : node) : Prop :=
+  n_peer_waiting n' = pw_pop (n_peer_waiting n) (host_of n cid)
+  /\ n_origin_waiting n' = ow_close cid (look (n_peer_waiting n) (host_of n cid)) (n_origin_waiting n)
+  /\ n_sent_answers n' = n_sent_answers n /\ n_cfg n' = n_cfg n
+  /\ forall k, host_of n' k = if Nat.eqb k cid then ""%string else host_of n k.
+Inductive keeps : node -> list nat -> node -> Prop :=
+| k_same n n' : same4 n n' -> keeps n [] n'
+| k_drop cid n n1 cl n' : drop1 cid n n1 -> keeps n1 cl n' -> keeps n (cid :: cl) n'.
 
-Lemma keeps_refl n : keeps n n.
-Proof. apply k_same. repeat split. Qed.
-Lemma same4_keeps a b c : same4 a b -> keeps b c -> keeps a c.
+Lemma same4_refl n : same4 n n.
+Proof. repeat split. Qed.
+Lemma same4_trans a b c : same4 a b -> same4 b c -> same4 a c.
 Proof.
-  intros (A1 & A2 & A3 & A4) K. revert a A1 A2 A3 A4. induction K as [b c (B1 & B2 & B3 & B4)|h b b1 c (D1 & D2 & D3 & D4) K IH]; intros a A1 A2 A3 A4.
-  - apply k_same. repeat split; congruence.
-  - apply (k_drop h a b1 c); [|exact K]. repeat split; congruence.
+  intros (A1 & A2 & A3 & A4 & A5) (B1 & B2 & B3 & B4 & B5). repeat split; try congruence.
 Qed.
-Lemma keeps_trans a b c : keeps a b -> keeps b c -> keeps a c.
+Lemma keeps_refl n : keeps n [] n.
+Proof. apply k_same, same4_refl. Qed.
+Lemma same4_keeps a b cl c : same4 a b -> keeps b cl c -> keeps a cl c.
 Proof.
-  intros K1 K2. induction K1 as [a b S|h a a1 b D K IH]; [eapply same4_keeps; eassumption|].
-  eapply k_drop; [exact D|]. apply IH. exact K2.
+  intros S K. revert a S. induction K as [b c S2|cid b b1 cl c (D1 & D2 & D3 & D4 & D5) K IH]; intros a S.
+  - apply k_same. eapply same4_trans; eassumption.
+  - destruct S as (A1 & A2 & A3 & A4 & A5). apply (k_drop cid a b1 cl c); [|exact K].
+    rewrite A5, A1, A2 in *. repeat split; try congruence. intros k. rewrite D5, A5. reflexivity.
 Qed.
-Ltac kp := solve [apply k_same; repeat split; reflexivity].
-
-Lemma remove_conn_k n cid r : keeps n (remove_conn n cid r).
+Lemma keeps_trans a c1 b c2 c : keeps a c1 b -> keeps b c2 c -> keeps a (c1 ++ c2) c.
 Proof.
-  unfold remove_conn. destruct (get_conn n cid) as [c|]; [|apply keeps_refl].
-  eapply (k_drop (c_host c)); [|apply keeps_refl].
-  destruct (find_conn_peer n c) as [p|]; [|repeat split; reflexivity].
-  destruct (p_conn p) as [k|]; [|repeat split; reflexivity]. destruct (Nat.eqb k cid); repeat split; reflexivity.
-Qed.
-
-Lemma mem_zz_app q a b : mem_zz q (a ++ b) = mem_zz q a || mem_zz q b.
-Proof. apply List.existsb_app. Qed.
-Lemma mem_zz_flat {A} q (f : A -> list (Z * Z)) l :
-  mem_zz q (List.flat_map f l) = List.existsb (fun k => mem_zz q (f k)) l.
-Proof.
-  induction l as [|k l IH]; [reflexivity|]. cbn [List.flat_map List.existsb]. rewrite mem_zz_app, IH. reflexivity.
-Qed.
-Lemma ow_drop_ext a b ow : (forall q, mem_zz q a = mem_zz q b) -> ow_drop a ow = ow_drop b ow.
-Proof. intros H. apply List.filter_ext. intros [[h e] o]. rewrite H. reflexivity. Qed.
-Lemma ow_drop_nil ow : ow_drop [] ow = ow.
-Proof. unfold ow_drop. induction ow as [|[[h e] o] r IH]; [reflexivity|]. cbn. f_equal. exact IH. Qed.
-Lemma ow_drop_drop a b ow : ow_drop b (ow_drop a ow) = ow_drop (a ++ b) ow.
-Proof.
-  unfold ow_drop. induction ow as [|[[h e] o] r IH]; [reflexivity|]. cbn [List.filter]. rewrite mem_zz_app.
-  destruct (mem_zz (h, e) a); cbn [negb orb]; [exact IH|]. cbn [List.filter].
-  destruct (mem_zz (h, e) b); cbn [negb]; [exact IH|]. f_equal. exact IH.
+  intros K1 K2. induction K1 as [a b S|cid a a1 cl b D K IH]; [eapply same4_keeps; eassumption|].
+  cbn [List.app]. eapply k_drop; [exact D|]. apply IH. exact K2.
 Qed.
 
-Lemma mem_host_in h l : mem_host h l = true <-> List.In h l.
+Lemma closes_app a b : closes (a ++ b) = (closes a ++ closes b)%list.
+Proof. apply List.flat_map_app. Qed.
+
+(* a node function result: the connections its outputs report as closed were removed, in that order *)
+Definition kc (n : node) (r : node * list output) : Prop := keeps n (closes (snd r)) (fst r).
+Lemma kc_nil n : kc n (n, []).
+Proof. apply keeps_refl. Qed.
+Lemma kc_same n n' o : same4 n n' -> closes o = [] -> kc n (n', o).
+Proof. intros S E. unfold kc. cbn [fst snd]. rewrite E. apply k_same, S. Qed.
+Lemma kc_app n n1 o1 n2 o2 : kc n (n1, o1) -> kc n1 (n2, o2) -> kc n (n2, (o1 ++ o2)%list).
+Proof. unfold kc. cbn [fst snd]. rewrite closes_app. apply keeps_trans. Qed.
+Lemma kc_pre n n0 r : same4 n n0 -> kc n0 r -> kc n r.
+Proof. intros S K. eapply same4_keeps; eassumption. Qed.
+Lemma kc_post n n1 o n2 : kc n (n1, o) -> same4 n1 n2 -> kc n (n2, o).
 Proof.
-  unfold mem_host. rewrite List.existsb_exists. split.
-  - intros (x & Hin & E). apply String.eqb_eq in E. subst x. exact Hin.
-  - intros Hin. exists h. split; [exact Hin|apply String.eqb_refl].
+  intros K S. pose proof (kc_app n n1 o n2 [] K (kc_same n1 n2 [] S eq_refl)) as H.
+  rewrite List.app_nil_r in H. exact H.
+Qed.
+Lemma kc_cons n n' x o : closes [x] = [] -> kc n (n', o) -> kc n (n', x :: o).
+Proof. intros E K. apply (kc_app n n [x] n' o); [apply kc_same; [apply same4_refl|exact E]|exact K]. Qed.
+
+(* host identities: untouched by updates that keep identity, by new connections, by other removals *)
+Lemma hst_upd l cid f k : keeps_id f -> (forall c, c_host (f c) = c_host c) -> hst (upd_conn l cid f) k = hst l k.
+Proof. intros H1 H2. unfold hst. rewrite hostl_upd by assumption. reflexivity. Qed.
+Lemma hst_new l x k : c_host x = ""%string -> hst (l ++ [x]) k = hst l k.
+Proof.
+  intros Hx. unfold hst, hostl. induction l as [|a l IH]; cbn [List.app List.find].
+  - destruct (Nat.eqb (c_id x) k); cbn; [exact Hx|reflexivity].
+  - destruct (Nat.eqb (c_id a) k); [reflexivity|exact IH].
+Qed.
+Ltac hs :=
+  intro; unfold host_of;
+  cbn [fst snd n_conns n_peers set_conns set_peers set_apps set_tables set_waiting set_time set_misc];
+  repeat first [reflexivity | rewrite hst_upd by fr_fn | rewrite hst_new by reflexivity].
+Ltac s4 := solve [split; [reflexivity|split; [reflexivity|split; [reflexivity|split; [reflexivity|hs]]]]].
+Ltac kp := solve [apply kc_same; [s4|reflexivity]].
+
+Lemma remove_conn_k n cid r c : get_conn n cid = Some c -> drop1 cid n (remove_conn n cid r).
+Proof.
+  intros Hc. assert (Hh : host_of n cid = c_host c).
+  { unfold host_of, hst. fold (hostof n cid). rewrite (hostof_get _ _ _ Hc). reflexivity. }
+  unfold drop1. rewrite Hh, (rc_pw _ _ r _ Hc), (rc_ow _ _ r _ Hc), (rc_sa _ _ r _ Hc), (rc_cfg _ _ r _ Hc).
+  repeat split. intros k. unfold host_of, hst. rewrite (rc_conns _ _ r _ Hc).
+  destruct (Nat.eqb k cid) eqn:E.
+  - apply Nat.eqb_eq in E. subst k. rewrite hostl_filter_self. reflexivity.
+  - apply Nat.eqb_neq in E. rewrite hostl_filter by exact E. reflexivity.
 Qed.
 
-Lemma mem_lost q a b :
-  mem_zz q (lost a b) = true <->
-  exists k, List.In k (hosts a) /\ mem_host k (hosts b) = false /\ mem_zz q (look a k) = true.
+Lemma closing_ext cl : forall hf hf' pw ow, (forall k, hf k = hf' k) -> closing hf pw cl ow = closing hf' pw cl ow.
 Proof.
-  unfold lost. rewrite mem_zz_flat, List.existsb_exists. split.
-  - intros (k & Hin & Hq). apply List.filter_In in Hin. destruct Hin as [Hin Hb].
-    exists k. repeat split; [exact Hin| |exact Hq]. destruct (mem_host k (hosts b)); [discriminate Hb|reflexivity].
-  - intros (k & Hin & Hb & Hq). exists k. split; [|exact Hq]. apply List.filter_In. split; [exact Hin|].
-    rewrite Hb. reflexivity.
+  induction cl as [|cid r IH]; intros hf hf' pw ow H; [reflexivity|]. cbn [closing]. rewrite (H cid).
+  apply IH. intros k. rewrite (H k). reflexivity.
 Qed.
 
-Lemma look_filter_neq pw h k :
-  k <> h -> look (List.filter (fun e => negb (String.eqb (fst e) h)) pw) k = look pw k.
-Proof.
-  intros Hn. unfold look. induction pw as [|e r IH]; [reflexivity|]. cbn [List.filter List.find].
-  destruct (String.eqb (fst e) h) eqn:E1; cbn [negb].
-  - apply String.eqb_eq in E1. destruct (String.eqb (fst e) k) eqn:E2; [|exact IH].
-    apply String.eqb_eq in E2. exfalso. apply Hn. congruence.
-  - cbn [List.find]. destruct (String.eqb (fst e) k); [reflexivity|exact IH].
-Qed.
-
-Lemma look_in q pw h : mem_zz q (look pw h) = true -> List.In h (hosts pw).
-Proof.
-  unfold look. destruct (List.find _ pw) as [e|] eqn:F; [|discriminate].
-  intros _. apply List.find_some in F. destruct F as [Hin E]. apply String.eqb_eq in E. subst h.
-  unfold hosts. apply List.in_map. exact Hin.
-Qed.
-
-Lemma hosts_filter_in pw h k :
-  List.In k (hosts (List.filter (fun e => negb (String.eqb (fst e) h)) pw)) <-> List.In k (hosts pw) /\ k <> h.
-Proof.
-  unfold hosts. rewrite !List.in_map_iff. split.
-  - intros (e & E & Hin). apply List.filter_In in Hin. destruct Hin as [Hin Hb]. subst k. split; [exists e; split; [reflexivity|exact Hin]|].
-    intros E. rewrite E, String.eqb_refl in Hb. discriminate Hb.
-  - intros [(e & E & Hin) Hn]. exists e. split; [exact E|]. apply List.filter_In. split; [exact Hin|].
-    subst k. destruct (String.eqb (fst e) h) eqn:E2; [apply String.eqb_eq in E2; contradiction|reflexivity].
-Qed.
-
-Lemma lost_same pw : lost pw pw = [].
-Proof.
-  unfold lost. replace (List.filter _ (hosts pw)) with (@nil string); [reflexivity|].
-  symmetry. assert (H : forall l, (forall k, List.In k l -> List.In k (hosts pw)) ->
-     List.filter (fun h => negb (mem_host h (hosts pw))) l = []).
-  { induction l as [|k l IH]; intros Hl; [reflexivity|]. cbn [List.filter].
-    destruct (mem_host k (hosts pw)) eqn:E; cbn [negb]; [apply IH; intros x Hx; apply Hl; right; exact Hx|].
-    exfalso. assert (mem_host k (hosts pw) = true) by (apply mem_host_in, Hl; left; reflexivity). congruence. }
-  apply H. auto.
-Qed.
-
-Lemma lost_step pw pw' h q :
-  (forall k, List.In k (hosts pw') -> List.In k (hosts (List.filter (fun e => negb (String.eqb (fst e) h)) pw))) ->
-  mem_zz q (lost pw pw')
-  = mem_zz q (look pw h ++ lost (List.filter (fun e => negb (String.eqb (fst e) h)) pw) pw').
-Proof.
-  intros Hsub. set (pw1 := List.filter _ pw) in *.
-  apply Bool.eq_iff_eq_true. rewrite mem_zz_app, Bool.orb_true_iff, !mem_lost. split.
-  - intros (k & Hin & Hb & Hq). destruct (string_dec k h) as [E|E].
-    + left. subst k. exact Hq.
-    + right. exists k. split; [apply hosts_filter_in; split; assumption|]. split; [exact Hb|].
-      unfold pw1. rewrite look_filter_neq by exact E. exact Hq.
-  - intros [Hq|(k & Hin & Hb & Hq)].
-    + exists h. split; [eapply look_in; exact Hq|]. split; [|exact Hq].
-      destruct (mem_host h (hosts pw')) eqn:E; [|reflexivity]. exfalso.
-      apply mem_host_in, Hsub, hosts_filter_in in E. destruct E as [_ E]. apply E. reflexivity.
-    + apply hosts_filter_in in Hin. destruct Hin as [Hin Hn]. exists k. split; [exact Hin|]. split; [exact Hb|].
-      unfold pw1 in Hq. rewrite look_filter_neq in Hq by exact Hn. exact Hq.
-Qed.
-
-Lemma keeps_spec n n' : keeps n n' ->
+Lemma keeps_spec n cl n' : keeps n cl n' ->
   n_sent_answers n' = n_sent_answers n /\ n_cfg n' = n_cfg n
-  /\ (forall k, List.In k (hosts (n_peer_waiting n')) -> List.In k (hosts (n_peer_waiting n)))
-  /\ n_origin_waiting n' = ow_drop (lost (n_peer_waiting n) (n_peer_waiting n')) (n_origin_waiting n).
+  /\ n_origin_waiting n' = closing (host_of n) (n_peer_waiting n) cl (n_origin_waiting n).
 Proof.
-  induction 1 as [n n' (S1 & S2 & S3 & S4)|h n n1 n' (D1 & D2 & D3 & D4) K (I1 & I2 & I3 & I4)].
-  - rewrite S1, lost_same, ow_drop_nil. repeat split; auto.
-  - assert (Hsub : forall k, List.In k (hosts (n_peer_waiting n')) ->
-                     List.In k (hosts (List.filter (fun e => negb (String.eqb (fst e) h)) (n_peer_waiting n)))).
-    { intros k Hk. rewrite <- D1. apply I3. exact Hk. }
-    split; [congruence|]. split; [congruence|]. split.
-    + intros k Hk. apply Hsub, hosts_filter_in in Hk. apply Hk.
-    + rewrite I4, D2, ow_drop_drop, D1. apply ow_drop_ext. intros q. symmetry. apply lost_step. exact Hsub.
+  induction 1 as [n n' (S1 & S2 & S3 & S4 & S5)|cid n n1 cl n' (D1 & D2 & D3 & D4 & D5) K (I1 & I2 & I3)].
+  - repeat split; assumption.
+  - split; [congruence|]. split; [congruence|]. cbn [closing]. rewrite I3, D1, D2. apply closing_ext. exact D5.
 Qed.
 
-Lemma close_conn_k n cid r : keeps n (fst (close_conn n cid r)).
-Proof. unfold close_conn. destruct (get_conn n cid); cbn [fst]; [apply remove_conn_k|apply keeps_refl]. Qed.
-
-Lemma close_all_k cids : forall n r, keeps n (fst (close_all n cids r)).
+Lemma close_conn_k n cid r : kc n (close_conn n cid r).
 Proof.
-  induction cids as [|k l IH]; intros n r; [apply keeps_refl|]. cbn [close_all].
+  unfold close_conn. destruct (get_conn n cid) as [c|] eqn:Hc; [|apply kc_nil].
+  unfold kc. cbn [fst snd closes List.flat_map List.app].
+  eapply k_drop; [apply (remove_conn_k n cid r c Hc)|apply keeps_refl].
+Qed.
+
+Lemma close_all_k cids : forall n r, kc n (close_all n cids r).
+Proof.
+  induction cids as [|k l IH]; intros n r; [apply kc_nil|]. cbn [close_all].
   pose proof (close_conn_k n k r) as H1. destruct (close_conn n k r) as [n1 o1].
   pose proof (IH n1 r) as H2. destruct (close_all n1 l r) as [n2 o2].
-  cbn [fst] in *. eapply keeps_trans; eassumption.
+  eapply kc_app; eassumption.
 Qed.
 
-Lemma send_req_k n cid m : o_req m = true -> keeps n (fst (send_message n cid m)).
+Lemma send_req_k n cid m : o_req m = true -> kc n (send_message n cid m).
 Proof. intros H. unfold send_message, queue_out. rewrite H. kp. Qed.
 
-Lemma own_request_k n cid c : keeps n (fst (own_request n cid c)).
-Proof. unfold own_request. destruct (get_conn n cid); kp. Qed.
+Lemma own_request_k n cid c : same4 n (fst (own_request n cid c)).
+Proof. unfold own_request. destruct (get_conn n cid); cbn [fst]; s4. Qed.
 
-Lemma send_cer_k n cid : keeps n (fst (send_cer n cid)).
+Lemma send_cer_k n cid : kc n (send_cer n cid).
 Proof.
   unfold send_cer. pose proof (own_request_k n cid CE) as K. pose proof (own_request_req n cid CE) as H.
   destruct (own_request n cid CE) as [n1 m]. cbn [fst snd] in *.
-  eapply keeps_trans; [exact K|apply send_req_k; exact H].
+  eapply kc_pre; [exact K|apply send_req_k; exact H].
 Qed.
-Lemma send_dwr_k n cid : keeps n (fst (send_dwr n cid)).
+Lemma send_dwr_k n cid : kc n (send_dwr n cid).
 Proof.
   unfold send_dwr. pose proof (own_request_k n cid DW) as K. pose proof (own_request_req n cid DW) as H.
   destruct (own_request n cid DW) as [n1 m]. cbn [fst snd] in *.
-  pose proof (send_req_k n1 cid m H) as K2. destruct (send_message n1 cid m) as [n2 o]. cbn [fst] in *.
-  eapply keeps_trans; [exact K|]. eapply keeps_trans; [exact K2|kp].
+  pose proof (send_req_k n1 cid m H) as K2. destruct (send_message n1 cid m) as [n2 o].
+  eapply kc_pre; [exact K|]. eapply kc_post; [exact K2|s4].
 Qed.
-Lemma send_dpr_k n cid : keeps n (fst (send_dpr n cid)).
+Lemma send_dpr_k n cid : kc n (send_dpr n cid).
 Proof.
   unfold send_dpr. pose proof (own_request_k n cid DP) as K. pose proof (own_request_req n cid DP) as H.
   destruct (own_request n cid DP) as [n1 m]. cbn [fst snd] in *. cbv zeta.
-  eapply keeps_trans; [exact K|]. eapply keeps_trans; [|apply send_req_k; exact H]. kp.
+  eapply kc_pre; [exact K|]. eapply kc_pre; [|apply send_req_k; exact H]. s4.
 Qed.
 
-Lemma check_timers_k n cid : keeps n (fst (check_timers n cid)).
+Lemma check_timers_k n cid : kc n (check_timers n cid).
 Proof.
-  unfold check_timers. destruct (n_stopping n); [apply keeps_refl|].
-  destruct (get_conn n cid) as [c|]; [|apply keeps_refl]. cbv zeta.
-  destruct (c_state c); try apply keeps_refl;
+  unfold check_timers. destruct (n_stopping n); [apply kc_nil|].
+  destruct (get_conn n cid) as [c|]; [|apply kc_nil]. cbv zeta.
+  destruct (c_state c); try apply kc_nil;
     match goal with |- context [if ?b then _ else _] => destruct b end;
-    first [apply keeps_refl | apply close_conn_k | apply send_dwr_k].
+    first [apply kc_nil | apply close_conn_k | apply send_dwr_k].
 Qed.
 
-Lemma timers_all_k cids : forall n, keeps n (fst (timers_all n cids)).
+Lemma timers_all_k cids : forall n, kc n (timers_all n cids).
 Proof.
-  induction cids as [|cid r IH]; intros n; [apply keeps_refl|]. cbn [timers_all].
+  induction cids as [|cid r IH]; intros n; [apply kc_nil|]. cbn [timers_all].
   pose proof (check_timers_k n cid) as H1. destruct (check_timers n cid) as [n1 o1].
   pose proof (IH n1) as H2. destruct (timers_all n1 r) as [n2 o2].
-  cbn [fst] in *. eapply keeps_trans; eassumption.
+  eapply kc_app; eassumption.
 Qed.
 
-Lemma connect_to_peer_k n name h res : keeps n (fst (connect_to_peer n name h res)).
+Lemma connect_to_peer_k n name h res : kc n (connect_to_peer n name h res).
 Proof.
-  unfold connect_to_peer. destruct (get_peer n name) as [p|]; [|apply keeps_refl].
-  destruct (p_conn p); [apply keeps_refl|].
-  destruct (negb (p_has_addr p)); [apply keeps_refl|]. cbv zeta.
+  unfold connect_to_peer. destruct (get_peer n name) as [p|]; [|apply kc_nil].
+  destruct (p_conn p); [apply kc_nil|].
+  destruct (negb (p_has_addr p)); [apply kc_nil|]. cbv zeta.
   destruct res.
   - match goal with |- context [send_cer ?a ?b] =>
       pose proof (send_cer_k a b) as Hc; destruct (send_cer a b) as [n5 o] end.
-    cbn [fst] in *. eapply keeps_trans; [|exact Hc]. kp.
+    apply kc_cons; [reflexivity|]. eapply kc_pre; [|exact Hc]. s4.
   - match goal with |- context [close_conn ?a ?b ?c] =>
       pose proof (close_conn_k a b c) as Hc; destruct (close_conn a b c) as [n4 o] end.
-    cbn [fst] in *. eapply keeps_trans; [|exact Hc]. kp.
+    apply kc_cons; [reflexivity|]. eapply kc_pre; [|exact Hc]. s4.
   - kp.
 Qed.
 
-Lemma reconnect_all_k names : forall n ds, keeps n (fst (fst (reconnect_all n names ds))).
+Lemma reconnect_all_k names : forall n ds, kc n (fst (reconnect_all n names ds)).
 Proof.
-  induction names as [|nm r IH]; intros n ds; [apply keeps_refl|]. cbn [reconnect_all].
+  induction names as [|nm r IH]; intros n ds; [apply kc_nil|]. cbn [reconnect_all].
   destruct (get_peer n nm) as [p|]; [|apply IH].
   destruct (wants_reconnect n p && p_has_addr p); [|apply IH].
   destruct ds as [|[h0 res] dr].
   - pose proof (connect_to_peer_k n nm 0 DialOk) as H1. destruct (connect_to_peer n nm 0 DialOk) as [n1 o1].
     pose proof (IH n1 []) as H2. destruct (reconnect_all n1 r []) as [[n2 o2] d2].
-    cbn [fst] in *. eapply keeps_trans; eassumption.
+    cbn [fst] in *. eapply kc_app; eassumption.
   - pose proof (connect_to_peer_k n nm h0 res) as H1. destruct (connect_to_peer n nm h0 res) as [n1 o1].
     pose proof (IH n1 dr) as H2. destruct (reconnect_all n1 r dr) as [[n2 o2] d2].
-    cbn [fst] in *. eapply keeps_trans; eassumption.
+    cbn [fst] in *. eapply kc_app; eassumption.
 Qed.
 
-Lemma io_iteration_k n ds : keeps n (fst (fst (io_iteration n ds))).
+Lemma io_iteration_k n ds : kc n (fst (io_iteration n ds)).
 Proof.
   unfold io_iteration.
   pose proof (timers_all_k (List.map c_id (n_conns n)) n) as H1.
   destruct (timers_all n (List.map c_id (n_conns n))) as [n1 o1].
   pose proof (reconnect_all_k (List.map p_name (n_peers n1)) n1 ds) as H2.
   destruct (reconnect_all n1 (List.map p_name (n_peers n1)) ds) as [[n2 o2] ds'].
-  cbn [fst] in *. eapply keeps_trans; [exact H1|]. eapply keeps_trans; [exact H2|kp].
+  cbn [fst] in *. eapply kc_post; [eapply kc_app; eassumption|s4].
 Qed.
 
-Lemma flush_one_k n cid : keeps n (fst (flush_one n cid)).
+Lemma closes_sends cid l : closes (List.map (OSend cid) l) = [].
+Proof. induction l as [|x l IH]; [reflexivity|exact IH]. Qed.
+
+Lemma flush_one_k n cid : kc n (flush_one n cid).
 Proof.
-  unfold flush_one. destruct (get_conn n cid) as [c|]; [|apply keeps_refl].
-  destruct (c_stalled c || negb (c_sock_open c)); [apply keeps_refl|]. cbv zeta.
+  unfold flush_one. destruct (get_conn n cid) as [c|]; [|apply kc_nil].
+  destruct (c_stalled c || negb (c_sock_open c)); [apply kc_nil|]. cbv zeta.
   destruct (c_out c) as [|x l]; [kp|].
-  destruct (cstate_eqb (c_state c) SClosing); [|kp].
+  destruct (cstate_eqb (c_state c) SClosing); [|apply kc_same; [s4|apply closes_sends]].
   match goal with |- context [close_conn ?a ?b ?c] =>
     pose proof (close_conn_k a b c) as Hc; destruct (close_conn a b c) as [n'' oc] end.
-  cbn [fst] in *. eapply keeps_trans; [|exact Hc]. kp.
+  eapply (kc_app n); [|exact Hc]. apply kc_same; [s4|apply closes_sends].
 Qed.
 
-Lemma flush_conns_k cids : forall n, keeps n (fst (flush_conns n cids)).
+Lemma flush_conns_k cids : forall n, kc n (flush_conns n cids).
 Proof.
-  induction cids as [|cid r IH]; intros n; [apply keeps_refl|].
+  induction cids as [|cid r IH]; intros n; [apply kc_nil|].
   rewrite flush_conns_cons.
   pose proof (flush_one_k n cid) as H1. destruct (flush_one n cid) as [n1 o1].
   pose proof (IH n1) as H2. destruct (flush_conns n1 r) as [n2 o2].
-  cbn [fst] in *. eapply keeps_trans; eassumption.
+  eapply kc_app; eassumption.
 Qed.
-Lemma flush_k n : keeps n (fst (flush n)).
+Lemma flush_k n : kc n (flush n).
 Proof. apply flush_conns_k. Qed.
 
-Lemma settle_k n ds : keeps n (fst (fst (settle n ds))).
+Lemma settle_k n ds : kc n (fst (settle n ds)).
 Proof.
   unfold settle.
   pose proof (flush_k n) as H1. destruct (flush n) as [n1 o1].
   pose proof (io_iteration_k n1 ds) as H2. destruct (io_iteration n1 ds) as [[n2 o2] ds'].
   pose proof (flush_k n2) as H3. destruct (flush n2) as [n3 o3].
-  cbn [fst] in *. eapply keeps_trans; [exact H1|]. eapply keeps_trans; eassumption.
+  cbn [fst] in *. eapply kc_app; [exact H1|]. eapply kc_app; eassumption.
 Qed.
-Lemma settle'_k n ds : keeps n (fst (settle' n ds)).
+Lemma settle'_k n ds : kc n (settle' n ds).
 Proof.
   unfold settle'. pose proof (settle_k n ds) as H. destruct (settle n ds) as [[n1 o1] d]. exact H.
 Qed.
 
 Lemma k_then_settle (r : node * list output) n ds :
-  keeps n (fst r) ->
-  keeps n (fst (let '(n1, o1) := r in let '(n2, o2) := settle' n1 ds in (n2, (o1 ++ o2)%list))).
+  kc n r ->
+  kc n (let '(n1, o1) := r in let '(n2, o2) := settle' n1 ds in (n2, (o1 ++ o2)%list)).
 Proof.
   destruct r as [n1 o1]. intros H1. pose proof (settle'_k n1 ds) as H2.
-  destruct (settle' n1 ds) as [n2 o2]. cbn [fst] in *. eapply keeps_trans; eassumption.
+  destruct (settle' n1 ds) as [n2 o2]. eapply kc_app; eassumption.
 Qed.
 
-Lemma settle_app_k n ds : keeps n (fst (fst (settle_app n ds))).
+Lemma settle_app_k n ds : kc n (fst (settle_app n ds)).
 Proof.
   unfold settle_app.
   pose proof (io_iteration_k n ds) as H2. destruct (io_iteration n ds) as [[n2 o2] ds'].
   pose proof (flush_k n2) as H3. destruct (flush n2) as [n3 o3].
-  cbn [fst] in *. eapply keeps_trans; eassumption.
+  cbn [fst] in *. eapply kc_app; eassumption.
 Qed.
-Lemma settle_app'_k n ds : keeps n (fst (settle_app' n ds)).
+Lemma settle_app'_k n ds : kc n (settle_app' n ds).
 Proof.
   unfold settle_app'. pose proof (settle_app_k n ds) as H. destruct (settle_app n ds) as [[n1 o1] d]. exact H.
 Qed.
 
 Lemma k_then_settle_app (r : node * list output) n ds :
-  keeps n (fst r) ->
-  keeps n (fst (let '(n1, o1) := r in let '(n2, o2) := settle_app' n1 ds in (n2, (o1 ++ o2)%list))).
+  kc n r ->
+  kc n (let '(n1, o1) := r in let '(n2, o2) := settle_app' n1 ds in (n2, (o1 ++ o2)%list)).
 Proof.
   destruct r as [n1 o1]. intros H1. pose proof (settle_app'_k n1 ds) as H2.
-  destruct (settle_app' n1 ds) as [n2 o2]. cbn [fst] in *. eapply keeps_trans; eassumption.
+  destruct (settle_app' n1 ds) as [n2 o2]. eapply kc_app; eassumption.
 Qed.
 
-Lemma wake_k target fuel : forall n0 n ds acc, keeps n0 n -> keeps n0 (fst (wake target fuel n ds acc)).
+Lemma wake_k target fuel : forall n0 n ds acc, kc n0 (n, acc) -> kc n0 (wake target fuel n ds acc).
 Proof.
   induction fuel as [|f IH]; intros n0 n ds acc K; cbn [wake].
-  - cbn [fst]. eapply keeps_trans; [exact K|kp].
-  - destruct (n_io_deadline n <=? target); [|cbn [fst]; eapply keeps_trans; [exact K|kp]].
+  - eapply kc_post; [exact K|]. unfold expire. s4.
+  - destruct (n_io_deadline n <=? target); [|eapply kc_post; [exact K|]; unfold expire; s4].
     cbv zeta.
     match goal with |- context [settle ?a ?b] =>
       pose proof (settle_k a b) as H2; destruct (settle a b) as [[n2 o2] ds2] end.
-    cbn [fst] in H2. apply IH. eapply keeps_trans; [exact K|]. eapply keeps_trans; [|exact H2]. kp.
+    cbn [fst] in H2. apply IH. eapply kc_app; [exact K|]. eapply kc_pre; [|exact H2]. s4.
 Qed.
 
-Lemma stop_go_k cids : forall n0 n acc, keeps n0 n -> keeps n0 (fst (stop_go cids n acc)).
+Lemma stop_go_k cids : forall n0 n acc, kc n0 (n, acc) -> kc n0 (stop_go cids n acc).
 Proof.
   induction cids as [|c r IH]; intros n0 n acc K; cbn [stop_go]; [exact K|].
   destruct (get_conn n c) as [cn|]; [|apply IH; exact K].
   destruct (is_ready_state (c_state cn)); [|apply IH; exact K].
   pose proof (send_dpr_k n c) as H2. destruct (send_dpr n c) as [n' o'].
-  apply IH. eapply keeps_trans; eassumption.
+  apply IH. eapply kc_app; eassumption.
 Qed.
 
-Lemma finish_go_k cids : forall n0 n acc, keeps n0 n -> keeps n0 (fst (finish_go cids n acc)).
+Lemma finish_go_k cids : forall n0 n acc, kc n0 (n, acc) -> kc n0 (finish_go cids n acc).
 Proof.
   induction cids as [|c r IH]; intros n0 n acc K; cbn [finish_go]; [exact K|].
   pose proof (close_conn_k n c R_SHUTDOWN) as H2. destruct (close_conn n c R_SHUTDOWN) as [n' o'].
-  apply IH. eapply keeps_trans; eassumption.
+  apply IH. eapply kc_app; eassumption.
 Qed.
 
-Lemma start_go_k names : forall n0 n ds acc, keeps n0 n -> keeps n0 (fst (fst (start_go names n ds acc))).
+Lemma start_go_k names : forall n0 n ds acc, kc n0 (n, acc) -> kc n0 (fst (start_go names n ds acc)).
 Proof.
   induction names as [|nm r IH]; intros n0 n ds acc K; cbn [start_go]; [exact K|].
   destruct (get_peer n nm) as [p|]; [|apply IH; exact K].
   destruct (p_persistent p); [|apply IH; exact K].
   destruct ds as [|[h0 res] dr].
   - pose proof (connect_to_peer_k n nm 0 DialOk) as H2. destruct (connect_to_peer n nm 0 DialOk) as [n1 o1].
-    apply IH. eapply keeps_trans; eassumption.
+    apply IH. eapply kc_app; eassumption.
   - pose proof (connect_to_peer_k n nm h0 res) as H2. destruct (connect_to_peer n nm h0 res) as [n1 o1].
-    apply IH. eapply keeps_trans; eassumption.
+    apply IH. eapply kc_app; eassumption.
 Qed.
 
 (* every event other than a network read and an application's answer leaves the windows and the
-   configuration alone and changes the table of pending requests only by closing connections *)
+   configuration alone and changes the table of pending requests only by closing connections.  (A connection
+   accepted while the node is stopping is refused: its OClose names a connection that never existed.) *)
 Lemma step_k n ds e :
-  (forall cid ms, e <> ERecv cid ms) -> (forall i m, e <> EAppAnswer i m) -> keeps n (fst (step n ds e)).
+  (forall cid ms, e <> ERecv cid ms) -> (forall i m, e <> EAppAnswer i m) ->
+  (forall h, e = EAccept h -> n_stopping n = false) -> kc n (step n ds e).
 Proof.
-  intros HnR HnA. destruct e as [hbh0|cid ms|cid|cid hard|cid ok|cid b|dt|i m|i m realm pick tmo|force|tclose tend|].
+  intros HnR HnA HnS. destruct e as [hbh0|cid ms|cid|cid hard|cid ok|cid b|dt|i m|i m realm pick tmo|force|tclose tend|].
   - (* EAccept *)
-    cbn [step]. destruct (n_stopping n); [kp|]. cbv zeta.
-    eapply keeps_trans; [|apply settle'_k]. kp.
+    cbn [step]. rewrite (HnS _ eq_refl). cbv zeta.
+    eapply kc_pre; [|apply settle'_k]. s4.
   - exfalso. exact (HnR _ _ eq_refl).
   - (* EPeerClose *)
     cbn [step]. apply k_then_settle. apply close_conn_k.
   - (* EReadErr *)
-    cbn [step]. apply k_then_settle. destruct hard; [apply close_conn_k|apply keeps_refl].
+    cbn [step]. apply k_then_settle. destruct hard; [apply close_conn_k|apply kc_nil].
   - (* EConnDone *)
-    cbn [step]. destruct (get_conn n cid) as [c|]; [|apply keeps_refl].
-    destruct (cstate_eqb (c_state c) SConnecting); [|apply keeps_refl].
+    cbn [step]. destruct (get_conn n cid) as [c|]; [|apply kc_nil].
+    destruct (cstate_eqb (c_state c) SConnecting); [|apply kc_nil].
     destruct ok.
     + cbv zeta.
       match goal with |- context [send_cer ?a ?b] =>
-        assert (K2 : keeps n a);
+        assert (K2 : same4 n a);
         [|pose proof (send_cer_k a b) as H3; destruct (send_cer a b) as [n3 o3]] end.
-      { match goal with |- context [find_conn_peer ?a ?b] => destruct (find_conn_peer a b) end; kp. }
+      { match goal with |- context [find_conn_peer ?a ?b] => destruct (find_conn_peer a b) end; s4. }
       pose proof (io_iteration_k n3 ds) as H4. destruct (io_iteration n3 ds) as [[n4 o4] ds4].
       pose proof (settle'_k n4 ds4) as H5. destruct (settle' n4 ds4) as [n5 o5].
-      cbn [fst] in *. eapply keeps_trans; [exact K2|]. eapply keeps_trans; [exact H3|].
-      eapply keeps_trans; eassumption.
+      cbn [fst] in *. eapply kc_pre; [exact K2|]. eapply kc_app; [exact H3|].
+      eapply kc_app; eassumption.
     + apply k_then_settle. apply close_conn_k.
   - (* EStall *)
-    cbn [step]. destruct (get_conn n cid) as [c|]; [|apply keeps_refl]. cbv zeta.
-    destruct b; [kp|]. destruct (c_out c); [kp|]. eapply keeps_trans; [|apply settle'_k]. kp.
+    cbn [step]. destruct (get_conn n cid) as [c|]; [|apply kc_nil]. cbv zeta.
+    destruct b; [kp|]. destruct (c_out c); [kp|]. eapply kc_pre; [|apply settle'_k]. s4.
   - (* ETick *)
-    rewrite step_tick. apply wake_k. apply keeps_refl.
+    rewrite step_tick. apply wake_k. apply kc_nil.
   - exfalso. exact (HnA _ _ eq_refl).
   - (* EAppRequest *)
     rewrite step_app_request.
-    assert (K0 : keeps n (fst (e2e_prep n m))).
-    { unfold e2e_prep. destruct (o_e2e m =? 0); kp. }
+    assert (K0 : same4 n (fst (e2e_prep n m))).
+    { unfold e2e_prep. destruct (o_e2e m =? 0); s4. }
     generalize dependent (fst (e2e_prep n m)). intros n0 K0. generalize (snd (e2e_prep n m)). intros e2e.
     unfold req_core.
-    destruct (route_request n0 i realm) as [usable|]; [|exact K0].
-    destruct usable as [|p0 rest]; [exact K0|].
-    destruct (choose (p0 :: rest) pick) as [p|]; [|exact K0].
-    destruct (p_conn p) as [cid|]; [|exact K0].
-    destruct (get_conn n0 cid) as [c|]; [|exact K0].
-    assert (K1 : keeps n0 (fst (if o_hbh m =? 0
+    destruct (route_request n0 i realm) as [usable|]; [|apply kc_same; [exact K0|reflexivity]].
+    destruct usable as [|p0 rest]; [apply kc_same; [exact K0|reflexivity]|].
+    destruct (choose (p0 :: rest) pick) as [p|]; [|apply kc_same; [exact K0|reflexivity]].
+    destruct (p_conn p) as [cid|]; [|apply kc_same; [exact K0|reflexivity]].
+    destruct (get_conn n0 cid) as [c|]; [|apply kc_same; [exact K0|reflexivity]].
+    assert (K1 : same4 n0 (fst (if o_hbh m =? 0
                then (set_conns n0 (upd_conn (n_conns n0) cid (fun c => set_chbh c (seq_next (c_hbh c)))), seq_next (c_hbh c))
-               else (n0, o_hbh m)))) by (destruct (o_hbh m =? 0); kp).
+               else (n0, o_hbh m)))) by (destruct (o_hbh m =? 0); s4).
     destruct (if o_hbh m =? 0 then _ else _) as [n1 hbh]. cbn [fst] in K1. cbv zeta.
-    eapply keeps_trans; [exact K0|]. eapply keeps_trans; [exact K1|].
-    apply k_then_settle_app. eapply keeps_trans; [|apply send_req_k; reflexivity]. kp.
+    eapply kc_pre; [exact K0|]. eapply kc_pre; [exact K1|].
+    apply k_then_settle_app. eapply kc_pre; [|apply send_req_k; reflexivity]. s4.
   - (* EStop *)
     rewrite step_stop. cbv zeta. destruct force; [kp|].
     apply k_then_settle. apply stop_go_k. kp.
@@ -512,107 +506,103 @@ Proof.
     rewrite step_stop_finish. cbv zeta.
     match goal with |- context [finish_go ?l ?a ?b] =>
       pose proof (finish_go_k l n a b) as H1; destruct (finish_go l a b) as [n1 o1] end.
-    cbn [fst] in *. eapply keeps_trans; [apply H1; kp|kp].
+    eapply kc_post; [apply H1; kp|s4].
   - (* EStart *)
     rewrite step_start.
-    pose proof (start_go_k (List.map p_name (n_peers n)) n n ds [] (keeps_refl n)) as H1.
+    pose proof (start_go_k (List.map p_name (n_peers n)) n n ds [] (kc_nil n)) as H1.
     destruct (start_go (List.map p_name (n_peers n)) n ds []) as [[n1 o1] ds1]. cbn [fst] in H1.
     apply (k_then_settle (n1, o1)). exact H1.
 Qed.
 
-Lemma flag_ready_k n cid : same4 n (flag_ready n cid).
-Proof. repeat split. Qed.
-Lemma assign_peer_conn_k n cid : same4 n (assign_peer_conn n cid).
-Proof.
-  unfold assign_peer_conn. destruct (get_conn n cid) as [c|]; [|repeat split].
-  destruct (String.eqb (c_host c) ""); [repeat split|].
-  destruct (get_peer n (c_host c)) as [p|]; [|repeat split]. cbv zeta.
-  destruct (mem_nat cid (n_half_ready n)); repeat split.
-Qed.
 (* ---- functions that close nothing: the table of pending requests, the windows and the configuration
-   stay, and no host leaves the per-host table (its lists may change) ---- *)
-Definition hsub (pw pw' : pw_t) : Prop := forall k, List.In k (hosts pw) -> List.In k (hosts pw').
+   stay (the per-host table and the host identities may change) ---- *)
 Definition kept (n n' : node) : Prop :=
-  n_origin_waiting n' = n_origin_waiting n /\ n_sent_answers n' = n_sent_answers n /\ n_cfg n' = n_cfg n
-  /\ hsub (n_peer_waiting n) (n_peer_waiting n').
+  n_origin_waiting n' = n_origin_waiting n /\ n_sent_answers n' = n_sent_answers n /\ n_cfg n' = n_cfg n.
 
 Lemma kept_refl n : kept n n.
-Proof. repeat split. intros k H. exact H. Qed.
+Proof. repeat split. Qed.
 Lemma kept_trans a b c : kept a b -> kept b c -> kept a c.
-Proof. intros (A1 & A2 & A3 & A4) (B1 & B2 & B3 & B4). repeat split; try congruence. intros k H. apply B4, A4, H. Qed.
+Proof. intros (A1 & A2 & A3) (B1 & B2 & B3). repeat split; congruence. Qed.
 Lemma same4_kept n n' : same4 n n' -> kept n n'.
-Proof. intros (S1 & S2 & S3 & S4). repeat split; try assumption. rewrite S1. intros k H. exact H. Qed.
+Proof. intros (S1 & S2 & S3 & S4 & _). repeat split; assumption. Qed.
+Ltac kt := solve [repeat split; reflexivity].
 
-Ltac kp ::= solve [apply k_same; repeat split; reflexivity | apply same4_kept; repeat split; reflexivity].
-
-Lemma hosts_pw_remove pw h p : hosts (pw_remove pw h p) = hosts pw.
+Lemma flag_ready_k n cid : kept n (flag_ready n cid).
+Proof. kt. Qed.
+Lemma assign_peer_conn_k n cid : kept n (assign_peer_conn n cid).
 Proof.
-  unfold hosts, pw_remove. rewrite List.map_map. apply List.map_ext. intros e. destruct (String.eqb (fst e) h); reflexivity.
+  unfold assign_peer_conn. destruct (get_conn n cid) as [c|]; [|kt].
+  destruct (String.eqb (c_host c) ""); [kt|].
+  destruct (get_peer n (c_host c)) as [p|]; [|kt]. cbv zeta.
+  destruct (mem_nat cid (n_half_ready n)); kt.
 Qed.
-Lemma hsub_pw_add pw h p : hsub pw (pw_add pw h p).
-Proof.
-  unfold pw_add. destruct (List.existsb _ pw).
-  - match goal with |- hsub pw ?x => assert (E : hosts x = hosts pw); [|intros k H; rewrite E; exact H] end.
-    unfold hosts. rewrite List.map_map. apply List.map_ext. intros e. destruct (String.eqb (fst e) h); reflexivity.
-  - intros k H. unfold hosts. rewrite List.map_app. apply List.in_or_app. left. exact H.
-Qed.
-Lemma kept_pw_remove n n' h p :
-  n_peer_waiting n' = pw_remove (n_peer_waiting n) h p -> n_origin_waiting n' = n_origin_waiting n ->
-  n_sent_answers n' = n_sent_answers n -> n_cfg n' = n_cfg n -> kept n n'.
-Proof. intros E1 E2 E3 E4. repeat split; try assumption. rewrite E1. intros k H. rewrite hosts_pw_remove. exact H. Qed.
 
-(* a host is waiting for the answer to the pair p (Node.route_answer finds it in the per-host table) *)
-Definition waits (n : node) (p : Z * Z) : bool :=
-  match List.find (fun e => mem_zz p (snd e)) (n_peer_waiting n) with Some _ => true | None => false end.
+(* a host is waiting for the answer to the pair p (Node.route_answer finds it in the per-host table) and a
+   connection carries that host's identity: the connection's id *)
+Definition waits (n : node) (p : Z * Z) : option nat :=
+  match List.find (fun e => mem_zz p (snd e)) (n_peer_waiting n) with
+  | Some e => match List.find (fun c => String.eqb (c_host c) (fst e)) (n_conns n) with
+              | Some c => Some (c_id c)
+              | None => None
+              end
+  | None => None
+  end.
 
 (* Node.route_answer: a routable answer only leaves its host's list; an answer that is not routable although a host
-   was waiting for it takes its pair out of the origin table (drop_origin) *)
+   was waiting for it and a connection of that host exists (not ready, then) takes that connection's entry for
+   the pair out of the origin table (drop_origin); without such a connection nothing is left to take out
+   (NodeC: C09_unroutable_releases_origin / C09_unroutable_no_conn_keeps_origin) *)
 Lemma route_answer_k n a :
   match fst (route_answer n a) with
   | Some _ => kept n (snd (route_answer n a))
   | None => n_origin_waiting (snd (route_answer n a))
-            = (if waits n (o_hbh a, o_e2e a) then ow_remove (n_origin_waiting n) (o_hbh a) (o_e2e a)
-               else n_origin_waiting n)
+            = (match waits n (o_hbh a, o_e2e a) with
+               | Some k => ow_remove (n_origin_waiting n) k (o_hbh a) (o_e2e a)
+               | None => n_origin_waiting n
+               end)
             /\ n_sent_answers (snd (route_answer n a)) = n_sent_answers n
             /\ n_cfg (snd (route_answer n a)) = n_cfg n
   end.
 Proof.
   unfold route_answer, waits. destruct (List.find _ (n_peer_waiting n)) as [[host l]|]; [|repeat split]. cbv zeta.
-  destruct (List.find _ _) as [c|]; [|repeat split].
-  destruct (is_ready_state (c_state c)); [eapply kept_pw_remove; reflexivity|repeat split].
+  cbn [n_conns set_waiting fst].
+  destruct (List.find _ (n_conns n)) as [c|]; [|repeat split].
+  destruct (is_ready_state (c_state c)); repeat split.
 Qed.
 
 (* ====================================================================== *)
 (* 2. the ghost history                                                    *)
 (* ====================================================================== *)
-(* pending requests, and the answers attributed so far, oldest first: (origin host, end-to-end id) *)
-Definition ghost : Type := (list (Z * Z * string) * list (string * Z))%type.
+(* pending requests (connection, hop-by-hop id, end-to-end id, origin host), and the answers attributed so far,
+   oldest first: (origin host, end-to-end id) *)
+Definition ghost : Type := (ow_t * list (string * Z))%type.
 Definition ghost0 : ghost := ([], []).
 
-(* a request is received: its pair is bound to its origin (replacing an older binding of the pair) *)
-Definition ghost_request (g : ghost) (m : msg) : ghost :=
+(* a request is received on connection cid: its key (cid, pair) is bound to its origin (replacing an older binding
+   of the same key; a binding of the same pair on ANOTHER connection stays) *)
+Definition ghost_request (g : ghost) (cid : nat) (m : msg) : ghost :=
   if m_req m then
     match origin_key m with
-    | Some o => ((ow_remove (fst g) (m_hbh m) (m_e2e m) ++ [(m_hbh m, m_e2e m, o)])%list, snd g)
+    | Some o => ((ow_remove (fst g) cid (m_hbh m) (m_e2e m) ++ [(cid, m_hbh m, m_e2e m, o)])%list, snd g)
     | None => g
     end
   else g.
 
-(* an answer is queued: attributed to the origin its pair is bound to, if any *)
-Definition ghost_answer (g : ghost) (a : omsg) : ghost :=
-  match ow_get (fst g) (o_hbh a) (o_e2e a) with
-  | Some o => (ow_remove (fst g) (o_hbh a) (o_e2e a), (snd g ++ [(o, o_e2e a)])%list)
+(* an answer is queued on connection cid: attributed to the origin its key is bound to, if any *)
+Definition ghost_answer (g : ghost) (cid : nat) (a : omsg) : ghost :=
+  match ow_get (fst g) cid (o_hbh a) (o_e2e a) with
+  | Some o => (ow_remove (fst g) cid (o_hbh a) (o_e2e a), (snd g ++ [(o, o_e2e a)])%list)
   | None => g
   end.
 
-(* connections were closed: the pairs that waited under the hosts which left the per-host table are dropped *)
-Definition ghost_drop (g : ghost) (gone : list (Z * Z)) : ghost := (ow_drop gone (fst g), snd g).
-(* what the closing connections took with them between two states *)
-Definition gone_between (n n' : node) : list (Z * Z) := lost (n_peer_waiting n) (n_peer_waiting n').
+(* connections were closed (cl, in order, from state n on): each takes with it its own bindings whose pair
+   waited under its host *)
+Definition ghost_drop (g : ghost) (n : node) (cl : list nat) : ghost :=
+  (closing (host_of n) (n_peer_waiting n) cl (fst g), snd g).
 
 Definition ghost_out (g : ghost) (o : output) : ghost :=
   match o with
-  | OQueue _ a => if o_req a then g else ghost_answer g a
+  | OQueue cid a => if o_req a then g else ghost_answer g cid a
   | _ => g
   end.
 Definition ghost_outs (g : ghost) (outs : list output) : ghost := List.fold_left ghost_out outs g.
@@ -621,8 +611,8 @@ Definition ghost_outs (g : ghost) (outs : list output) : ghost := List.fold_left
 Definition received (n : node) (cid : nat) (m : msg) : bool :=
   match get_conn n cid with Some c => gate_passes c m | None => false end.
 
-(* a request that will never be answered is forgotten: every binding of its pair goes *)
-Definition ghost_unbind (g : ghost) (hbh e2e : Z) : ghost := (ow_remove (fst g) hbh e2e, snd g).
+(* a request that will never be answered is forgotten: the binding of its key goes *)
+Definition ghost_unbind (g : ghost) (cid : nat) (hbh e2e : Z) : ghost := (ow_remove (fst g) cid hbh e2e, snd g).
 
 (* a capabilities-exchange request reaches Node._receive_message on a connection that is not awaiting one
    (state other than CONNECTED): it is either answered with an error or ignored; it does not stay pending *)
@@ -639,10 +629,10 @@ Fixpoint ghost_frames (n : node) (g : ghost) (cid : nat) (ms : list msg) : ghost
   match ms with
   | [] => g
   | m :: r =>
-      let g1 := if received n cid m then ghost_request g m else g in
-      let g2 := ghost_drop g1 (gone_between n (fst (dispatch n cid m))) in
+      let g1 := if received n cid m then ghost_request g cid m else g in
+      let g2 := ghost_drop g1 n (closes (snd (dispatch n cid m))) in
       let g3 := ghost_outs g2 (snd (dispatch n cid m)) in
-      let g4 := if cer_unexpected n cid m then ghost_unbind g3 (m_hbh m) (m_e2e m) else g3 in
+      let g4 := if cer_unexpected n cid m then ghost_unbind g3 cid (m_hbh m) (m_e2e m) else g3 in
       ghost_frames (fst (dispatch n cid m)) g4 cid r
   end.
 
@@ -655,21 +645,30 @@ Definition ghost_step (n : node) (ds : dials) (e : event) (g : ghost) : ghost :=
       | None => g
       | Some _ =>
           let rs := read_state n ds cid in
-          let g1 := ghost_frames rs (ghost_drop g (gone_between n rs)) cid ms in
-          ghost_drop g1 (gone_between (fst (dispatch_all rs cid ms)) (fst (step n ds e)))
+          let n3 := fst (dispatch_all rs cid ms) in
+          let g1 := ghost_frames rs (ghost_drop g n (closes (snd (fst (io_iteration n ds))))) cid ms in
+          ghost_drop g1 n3 (closes (snd (settle' n3 (snd (io_iteration n ds)))))
       end
   | EAppAnswer _ m =>
       match fst (route_answer n m) with
-      | Some _ =>
+      | Some cid =>
           (* Node.route_answer takes the answer's pair out of the per-host table, then the answer is queued,
              then the I/O thread may close connections *)
-          ghost_drop (ghost_outs g (snd (step n ds e))) (gone_between (snd (route_answer n m)) (fst (step n ds e)))
+          ghost_drop (ghost_outs g (snd (step n ds e))) (fst (send_message (snd (route_answer n m)) cid m))
+                     (closes (snd (step n ds e)))
       | None =>
-          (* not routable (the trace entry is [ONotRoutable]): when a host was waiting for it, its connection
-             is gone or no longer ready and the request is forgotten *)
-          if waits n (o_hbh m, o_e2e m) then ghost_unbind g (o_hbh m) (o_e2e m) else g
+          (* not routable (the trace entry is [ONotRoutable]): when a host was waiting for it and a connection of
+             that host exists, the connection is no longer ready and its request is forgotten *)
+          match waits n (o_hbh m, o_e2e m) with
+          | Some k => ghost_unbind g k (o_hbh m) (o_e2e m)
+          | None => g
+          end
       end
-  | _ => ghost_drop (ghost_outs g (snd (step n ds e))) (gone_between n (fst (step n ds e)))
+  | EAccept _ =>
+      (* a connection accepted while the node is stopping is refused at once: nothing was registered *)
+      if n_stopping n then g
+      else ghost_drop (ghost_outs g (snd (step n ds e))) n (closes (snd (step n ds e)))
+  | _ => ghost_drop (ghost_outs g (snd (step n ds e))) n (closes (snd (step n ds e)))
   end.
 
 Fixpoint ghost_run (n : node) (g : ghost) (evs : list (dials * event)) : ghost :=
@@ -685,7 +684,7 @@ Definition answers_of (h : list (string * Z)) (o : string) : list Z :=
 Definition answered (n0 : node) (evs : list (dials * event)) (o : string) : list Z :=
   answers_of (snd (ghost_run n0 ghost0 evs)) o.
 (* the requests received so far and not answered yet *)
-Definition pending (n0 : node) (evs : list (dials * event)) : list (Z * Z * string) :=
+Definition pending (n0 : node) (evs : list (dials * event)) : ow_t :=
   fst (ghost_run n0 ghost0 evs).
 
 (* the last k elements *)
@@ -693,16 +692,16 @@ Definition lastn {A} (k : nat) (l : list A) : list A := List.skipn (List.length 
 
 (* under "unanswered requests have pairwise distinct pairs" the ghost never forgets a pending request:
    binding a pair that is not pending is a plain append *)
-Lemma ow_remove_fresh ow h e : ow_get ow h e = None -> ow_remove ow h e = ow.
+Lemma ow_remove_fresh ow c h e : ow_get ow c h e = None -> ow_remove ow c h e = ow.
 Proof.
-  unfold ow_remove. induction ow as [|[[h' e'] o] r IH]; [reflexivity|].
-  cbn [ow_get List.filter]. destruct ((h' =? h) && (e' =? e)); [discriminate|].
+  unfold ow_remove. induction ow as [|x r IH]; [reflexivity|].
+  cbn [ow_get List.filter]. destruct (ow_key c h e x); [discriminate|].
   intros H. cbn [negb]. f_equal. exact (IH H).
 Qed.
-Lemma ghost_request_fresh g m o :
-  m_req m = true -> origin_key m = Some o -> ow_get (fst g) (m_hbh m) (m_e2e m) = None ->
-  ghost_request g m = ((fst g ++ [(m_hbh m, m_e2e m, o)])%list, snd g).
-Proof. intros Hr Ho Hf. unfold ghost_request. rewrite Hr, Ho, (ow_remove_fresh _ _ _ Hf). reflexivity. Qed.
+Lemma ghost_request_fresh (g : ghost) cid m o :
+  m_req m = true -> origin_key m = Some o -> ow_get (fst g) cid (m_hbh m) (m_e2e m) = None ->
+  ghost_request g cid m = ((fst g ++ [(cid, m_hbh m, m_e2e m, o)])%list, snd g).
+Proof. intros Hr Ho Hf. unfold ghost_request. rewrite Hr, Ho, (ow_remove_fresh _ _ _ _ Hf). reflexivity. Qed.
 
 (* ---- the ghost and the trace ------------------------------------------------------------- *)
 Lemma ghost_outs_app g a b : ghost_outs g (a ++ b) = ghost_outs (ghost_outs g a) b.
@@ -804,51 +803,47 @@ Definition Inv (n : node) (g : ghost) : Prop :=
   forall o, sa_get (n_sent_answers n) o = lastn (g_rsize (n_cfg n)) (answers_of (snd g) o).
 
 Lemma Inv_kept n n' g : kept n n' -> Inv n g -> Inv n' g.
-Proof. intros (K1 & K2 & K3 & _) [H1 H2]. unfold Inv. rewrite K1, K2, K3. split; assumption. Qed.
+Proof. intros (K1 & K2 & K3) [H1 H2]. unfold Inv. rewrite K1, K2, K3. split; assumption. Qed.
 
 (* connections close: the ghost drops what the node drops *)
-Lemma Inv_keeps n n' g : keeps n n' -> Inv n g -> Inv n' (ghost_drop g (gone_between n n')).
+Lemma Inv_keeps n cl n' g : keeps n cl n' -> Inv n g -> Inv n' (ghost_drop g n cl).
 Proof.
-  intros K [H1 H2]. destruct (keeps_spec n n' K) as (K2 & K3 & _ & K1). unfold Inv, ghost_drop, gone_between.
+  intros K [H1 H2]. destruct (keeps_spec n cl n' K) as (K2 & K3 & K1). unfold Inv, ghost_drop.
   cbn [fst snd]. rewrite K1, K2, K3, H1. split; [reflexivity|exact H2].
 Qed.
 
-(* a node function result that closes nothing: the invariant is carried along its outputs and no host
-   leaves the per-host table *)
+(* a node function result that closes nothing: the invariant is carried along its outputs *)
 Definition tr (n : node) (r : node * list output) : Prop :=
-  (forall g, Inv n g -> Inv (fst r) (ghost_outs g (snd r))) /\ hsub (n_peer_waiting n) (n_peer_waiting (fst r)).
+  (forall g, Inv n g -> Inv (fst r) (ghost_outs g (snd r))) /\ closes (snd r) = [].
 
-Lemma tr_quiet n n' outs : kept n n' -> rq outs -> tr n (n', outs).
+Lemma tr_quiet n n' outs : kept n n' -> rq outs -> closes outs = [] -> tr n (n', outs).
 Proof.
-  intros K R. split; [|apply K]. intros g H. cbn [fst snd]. rewrite (ghost_outs_rq _ R). eapply Inv_kept; eassumption.
+  intros K R C. split; [|exact C]. intros g H. cbn [fst snd]. rewrite (ghost_outs_rq _ R). eapply Inv_kept; eassumption.
 Qed.
 Lemma tr_nil n : tr n (n, []).
-Proof. apply tr_quiet; [apply kept_refl|apply rq_nil]. Qed.
-Lemma tr_app n n1 o1 n2 o2 : tr n (n1, o1) -> tr n1 (n2, o2) -> tr n (n2, (o1 ++ o2)%list).
-Proof.
-  intros [T1 S1] [T2 S2]. split; [|intros k H; apply S2, S1, H].
-  intros g H. cbn [fst snd]. rewrite ghost_outs_app. apply (T2 _ (T1 _ H)).
-Qed.
+Proof. apply tr_quiet; [apply kept_refl|apply rq_nil|reflexivity]. Qed.
 Lemma tr_pre n n0 r : kept n n0 -> tr n0 r -> tr n r.
 Proof.
-  intros K [T S]. split; [|intros k H; apply S, K, H]. intros g H. apply T. eapply Inv_kept; eassumption.
+  intros K [T S]. split; [|exact S]. intros g H. apply T. eapply Inv_kept; eassumption.
 Qed.
 Lemma tr_post n n1 o n2 : tr n (n1, o) -> kept n1 n2 -> tr n (n2, o).
 Proof.
-  intros [T S] K. split; [|intros k H; apply K, S, H]. intros g H. cbn [fst snd]. eapply Inv_kept; [exact K|]. exact (T _ H).
+  intros [T S] K. split; [|exact S]. intros g H. cbn [fst snd]. eapply Inv_kept; [exact K|]. exact (T _ H).
 Qed.
-Lemma tr_cons_other n n' x o : is_queue x = false -> tr n (n', o) -> tr n (n', x :: o).
+Lemma tr_cons_other n n' x o : is_queue x = false -> closes [x] = [] -> tr n (n', o) -> tr n (n', x :: o).
 Proof.
-  intros Hx [T S]. split; [|exact S]. intros g H. cbn [fst snd ghost_outs List.fold_left].
-  replace (ghost_out g x) with g by (destruct x; try reflexivity; discriminate Hx). exact (T _ H).
+  intros Hx Hc [T S]. split.
+  - intros g H. cbn [fst snd ghost_outs List.fold_left].
+    replace (ghost_out g x) with g by (destruct x; try reflexivity; discriminate Hx). exact (T _ H).
+  - cbn [snd] in *. change (x :: o) with ([x] ++ o)%list. rewrite closes_app, Hc, S. reflexivity.
 Qed.
 
 (* recording an answer in the node = attributing it in the ghost *)
-Lemma Inv_record n g a :
-  Inv n g -> Inv (record_answer n (o_hbh a) (o_e2e a)) (ghost_answer g a).
+Lemma Inv_record n g cid a :
+  Inv n g -> Inv (record_answer n cid (o_hbh a) (o_e2e a)) (ghost_answer g cid a).
 Proof.
   intros [Hp Hw]. rewrite record_answer_eq. unfold ghost_answer. rewrite Hp.
-  destruct (ow_get (n_origin_waiting n) (o_hbh a) (o_e2e a)) as [o|]; [|split; assumption].
+  destruct (ow_get (n_origin_waiting n) cid (o_hbh a) (o_e2e a)) as [o|]; [|split; assumption].
   split; cbn [fst snd set_waiting n_origin_waiting n_sent_answers n_cfg]; [reflexivity|].
   intros o'. destruct (C17_window (g_rsize (n_cfg n)) (n_sent_answers n) o (o_e2e a)) as [W1 W2].
   rewrite answers_of_snoc. destruct (String.eqb o o') eqn:E.
@@ -856,71 +851,42 @@ Proof.
   - apply String.eqb_neq in E. rewrite W2 by (intros E'; apply E; symmetry; exact E'). apply Hw.
 Qed.
 
-(* the only thing an answer on its way out changes in the per-host table: its pair leaves a list *)
-Definition psim (p : Z * Z) (n n' : node) : Prop :=
-  n_origin_waiting n' = n_origin_waiting n /\ n_sent_answers n' = n_sent_answers n /\ n_cfg n' = n_cfg n
-  /\ (n_peer_waiting n' = n_peer_waiting n \/ exists h, n_peer_waiting n' = pw_remove (n_peer_waiting n) h p).
-Lemma psim_kept p n n' : psim p n n' -> kept n n'.
-Proof.
-  intros (E1 & E2 & E3 & [E4|[h E4]]); [apply same4_kept; repeat split; assumption|].
-  eapply kept_pw_remove; eassumption.
-Qed.
-
 Lemma send_answer_eq n cid a :
   o_req a = false ->
-  exists n2, psim (o_hbh a, o_e2e a) n n2
-             /\ send_message n cid a = (record_answer n2 (o_hbh a) (o_e2e a), [OQueue cid a]).
+  exists n2, kept n n2 /\ send_message n cid a = (record_answer n2 cid (o_hbh a) (o_e2e a), [OQueue cid a]).
 Proof.
   intros H. unfold send_message, queue_out. rewrite H. eexists. split; [|reflexivity].
-  destruct (get_conn n cid); repeat split; solve [left; reflexivity | right; eexists; reflexivity].
+  destruct (get_conn n cid); kt.
 Qed.
 
-Lemma record_answer_pw n h e : n_peer_waiting (record_answer n h e) = n_peer_waiting n.
-Proof. rewrite record_answer_eq. destruct (ow_get _ h e); reflexivity. Qed.
-
 Lemma send_req_kept n cid m : o_req m = true -> kept n (fst (send_message n cid m)).
-Proof. intros H. unfold send_message, queue_out. rewrite H. kp. Qed.
+Proof. intros H. unfold send_message, queue_out. rewrite H. kt. Qed.
 
 (* Node.send_message: a request leaves everything alone; an answer is recorded / attributed *)
 Lemma tr_send n cid a : tr n (send_message n cid a).
 Proof.
   destruct (o_req a) eqn:Hr.
-  - rewrite send_message_pair. apply tr_quiet; [apply send_req_kept; exact Hr|].
+  - rewrite send_message_pair. apply tr_quiet; [apply send_req_kept; exact Hr| |reflexivity].
     constructor; [exact Hr|constructor].
-  - destruct (send_answer_eq n cid a Hr) as (n2 & K & E). rewrite E. apply psim_kept in K. split.
-    + intros g H. cbn [fst snd ghost_outs List.fold_left ghost_out]. rewrite Hr.
-      apply Inv_record. eapply Inv_kept; eassumption.
-    + cbn [fst]. rewrite record_answer_pw. apply K.
-Qed.
-
-Lemma same4_refl n : same4 n n.
-Proof. repeat split. Qed.
-Lemma same4_trans a b c : same4 a b -> same4 b c -> same4 a c.
-Proof. intros (A1 & A2 & A3 & A4) (B1 & B2 & B3 & B4). repeat split; congruence. Qed.
-Ltac s4 := solve [repeat split; reflexivity].
-
-Lemma send_hosts n cid a : hosts (n_peer_waiting (fst (send_message n cid a))) = hosts (n_peer_waiting n).
-Proof.
-  unfold send_message, queue_out. destruct (o_req a); [reflexivity|]. cbn [fst]. rewrite record_answer_pw.
-  destruct (get_conn n cid); [|reflexivity]. cbn. apply hosts_pw_remove.
+  - destruct (send_answer_eq n cid a Hr) as (n2 & K & E). rewrite E. split; [|reflexivity].
+    intros g H. cbn [fst snd ghost_outs List.fold_left ghost_out]. rewrite Hr.
+    apply Inv_record. eapply Inv_kept; eassumption.
 Qed.
 
 (* a node function result in general: first some connections are closed (nothing else is put out), then
-   nothing is closed any more; whether a host has left the table is settled in the first part *)
+   nothing is closed any more *)
 Definition trc (n : node) (r : node * list output) : Prop :=
-  exists n1 o1 o2, snd r = (o1 ++ o2)%list /\ keeps n n1 /\ rq o1 /\ tr n1 (fst r, o2)
-    /\ forall k, List.In k (hosts (n_peer_waiting n)) ->
-         (List.In k (hosts (n_peer_waiting (fst r))) <-> List.In k (hosts (n_peer_waiting n1))).
+  exists n1 o1 o2, snd r = (o1 ++ o2)%list /\ kc n (n1, o1) /\ rq o1 /\ tr n1 (fst r, o2).
 
 Lemma trc_tr n r : tr n r -> trc n r.
 Proof.
-  destruct r as [n' o]. intros T. exists n, [], o. split; [reflexivity|]. split; [apply keeps_refl|].
-  split; [apply rq_nil|]. split; [exact T|]. intros k H. split; [intros _; exact H|intros _; apply T, H].
+  destruct r as [n' o]. intros T. exists n, [], o. split; [reflexivity|]. split; [apply kc_nil|].
+  split; [apply rq_nil|exact T].
 Qed.
-Lemma trc_keeps n n' o : keeps n n' -> rq o -> trc n (n', o).
+Lemma trc_keeps n n' o : kc n (n', o) -> rq o -> trc n (n', o).
 Proof.
   intros K R. exists n', o, []. split; [symmetry; apply List.app_nil_r|]. split; [exact K|]. split; [exact R|].
-  split; [apply tr_nil|]. intros k H. reflexivity.
+  apply tr_nil.
 Qed.
 Lemma trc_close n cid r : trc n (close_conn n cid r).
 Proof.
@@ -929,52 +895,51 @@ Proof.
 Qed.
 Lemma trc_pre n n0 r : same4 n n0 -> trc n0 r -> trc n r.
 Proof.
-  intros S (n1 & o1 & o2 & E & K & R & T & Hh). exists n1, o1, o2. split; [exact E|].
-  split; [eapply same4_keeps; eassumption|]. split; [exact R|]. split; [exact T|].
-  destruct S as (S1 & _). rewrite <- S1. exact Hh.
+  intros S (n1 & o1 & o2 & E & K & R & T). exists n1, o1, o2. split; [exact E|].
+  split; [eapply kc_pre; eassumption|]. split; [exact R|exact T].
 Qed.
 
 Lemma only_close_rq outs : only_close outs -> rq outs.
 Proof. apply Forall_impl. intros [] H; try contradiction H; exact I. Qed.
 
-(* close some connections, then send one message from a state that differs from the result only in
-   what `same4` ignores *)
+(* close some connections, then send one message from a state that has the same pending table, windows and
+   configuration (the host identity of the connection may have been set in between) *)
 Lemma trc_then_send n n1 oel X cid a :
-  keeps n n1 -> rq oel -> same4 n1 X ->
+  kc n (n1, oel) -> rq oel -> kept n1 X ->
   trc n (let '(n2, o) := send_message X cid a in (n2, (oel ++ o)%list)).
 Proof.
-  intros K1 R K2. pose proof (tr_send X cid a) as T. pose proof (send_hosts X cid a) as Hs.
+  intros K1 R K2. pose proof (tr_send X cid a) as T.
   destruct (send_message X cid a) as [n2 o]. cbn [fst] in *.
-  exists X, oel, o. split; [reflexivity|]. split; [eapply keeps_trans; [exact K1|apply k_same; exact K2]|].
-  split; [exact R|]. split; [exact T|]. intros k _. cbn [fst]. rewrite Hs. reflexivity.
+  exists n1, oel, o. split; [reflexivity|]. split; [exact K1|].
+  split; [exact R|]. eapply tr_pre; eassumption.
 Qed.
 
 (* Node.recv_cer: either as above, or the request is ignored (the connection is not awaiting a CER) and forgotten *)
 Lemma trc_recv_cer n cid m :
   trc n (recv_cer n cid m)
   \/ exists c0, get_conn n cid = Some c0 /\ cstate_eqb (c_state c0) SConnected = false
-                /\ recv_cer n cid m = (drop_origin n (m_hbh m) (m_e2e m), []).
+                /\ recv_cer n cid m = (drop_origin n cid (m_hbh m) (m_e2e m), []).
 Proof.
   unfold recv_cer.
   destruct (get_conn n cid) as [c0|]; [|left; apply trc_tr, tr_nil].
   destruct (cstate_eqb (c_state c0) SConnected) eqn:Es; cbn [negb];
     [left|right; exists c0; split; [reflexivity|split; [exact Es|reflexivity]]].
   destruct (pres_get (m_origin m)) as [host|]; [|apply trc_tr, tr_nil].
-  destruct (get_peer n host) as [p|]; [|apply trc_tr; eapply tr_pre; [|apply tr_send]; kp].
+  destruct (get_peer n host) as [p|]; [|apply trc_tr; eapply tr_pre; [|apply tr_send]; kt].
   cbv zeta.
   destruct (election_rivals _ cid host) as [|r0 rs];
-    [|destruct (String.ltb host _); [|apply trc_tr; eapply tr_pre; [|apply tr_send]; kp]];
+    [|destruct (String.ltb host _); [|apply trc_tr; eapply tr_pre; [|apply tr_send]; kt]];
     (match goal with |- context [close_all ?a ?b ?c] =>
        pose proof (close_all_k b a c) as Hk; pose proof (only_close_rq _ (close_all_only_close b a c)) as Hq;
-       assert (K0 : keeps n a) by kp;
+       assert (K0 : same4 n a) by s4;
        destruct (close_all a b c) as [n1 oel] end;
      cbn [fst snd] in Hk, Hq;
      destruct (inter_z _ (m_auth m)); destruct (inter_z _ (m_acct m));
        destruct (mem_z APP_RELAY (m_auth m) || mem_z APP_RELAY (m_acct m));
        (apply (trc_then_send n n1);
-        [eapply keeps_trans; eassumption | exact Hq |
-         first [apply same4_refl
-               | eapply same4_trans; [|apply flag_ready_k]; eapply same4_trans; [|apply assign_peer_conn_k]; s4]])).
+        [eapply kc_pre; eassumption | exact Hq |
+         first [apply kept_refl
+               | eapply kept_trans; [|apply flag_ready_k]; eapply kept_trans; [|apply assign_peer_conn_k]; kt]])).
 Qed.
 
 Lemma trc_recv_cea n cid m : trc n (recv_cea n cid m).
@@ -986,22 +951,22 @@ Proof.
   destruct (pres_get (m_origin m)) as [host|]; [|apply trc_tr, tr_nil].
   destruct (negb (String.eqb (c_node_name c0) "") && negb (String.eqb host (c_node_name c0)));
     [apply trc_close|].
-  apply trc_tr, tr_quiet; [|apply rq_nil]. apply same4_kept.
-  eapply same4_trans; [|apply flag_ready_k]. eapply same4_trans; [|apply assign_peer_conn_k]. s4.
+  apply trc_tr, tr_quiet; [|apply rq_nil|reflexivity].
+  eapply kept_trans; [|apply flag_ready_k]. eapply kept_trans; [|apply assign_peer_conn_k]. kt.
 Qed.
 
 Lemma tr_recv_dpr n cid m : tr n (recv_dpr n cid m).
 Proof.
   unfold recv_dpr. cbv zeta. eapply tr_pre; [|apply tr_send].
-  match goal with |- context [match get_conn ?a ?b with _ => _ end] => destruct (get_conn a b) as [c|] end; [|kp].
-  match goal with |- context [match find_conn_peer ?a ?b with _ => _ end] => destruct (find_conn_peer a b) end; kp.
+  match goal with |- context [match get_conn ?a ?b with _ => _ end] => destruct (get_conn a b) as [c|] end; [|kt].
+  match goal with |- context [match find_conn_peer ?a ?b with _ => _ end] => destruct (find_conn_peer a b) end; kt.
 Qed.
 
 Lemma trc_recv_dpa n cid : trc n (recv_dpa n cid).
 Proof.
   unfold recv_dpa. cbv zeta.
-  destruct (get_conn _ cid) as [c|]; [|apply trc_tr, tr_quiet; [kp|apply rq_nil]].
-  destruct (c_out c); [|apply trc_tr, tr_quiet; [kp|apply rq_nil]].
+  destruct (get_conn _ cid) as [c|]; [|apply trc_tr, tr_quiet; [kt|apply rq_nil|reflexivity]].
+  destruct (c_out c); [|apply trc_tr, tr_quiet; [kt|apply rq_nil|reflexivity]].
   eapply trc_pre; [|apply trc_close]. s4.
 Qed.
 
@@ -1015,10 +980,10 @@ Proof.
   destruct (handler_raises m).
   - match goal with |- context [send_message ?x cid ?a] =>
       pose proof (tr_send x cid a) as T;
-      assert (K : kept n x) by (repeat split; try reflexivity; apply hsub_pw_add);
+      assert (K : kept n x) by kt;
       destruct (send_message x cid a) as [n2 o] end.
-    apply tr_cons_other; [reflexivity|]. eapply tr_pre; eassumption.
-  - apply tr_quiet; [repeat split; try reflexivity; apply hsub_pw_add|]. constructor; [exact I|constructor].
+    apply tr_cons_other; [reflexivity|reflexivity|]. eapply tr_pre; eassumption.
+  - apply tr_quiet; [kt| |reflexivity]. constructor; [exact I|constructor].
 Qed.
 
 Lemma tr_recv_app_answer n m : tr n (recv_app_answer n m).
@@ -1027,7 +992,7 @@ Proof.
   destruct (List.find _ (n_app_waiting n)) as [[[h e] i]|]; [|apply tr_nil].
   destruct (List.nth_error (n_apps n) i) as [a|]; [|apply tr_nil]. cbv zeta.
   destruct (mem_z (m_hbh m) (List.map fst (a_waiting a)));
-    (apply tr_quiet; [kp|constructor; [exact I|constructor]]).
+    (apply tr_quiet; [kt|constructor; [exact I|constructor]|reflexivity]).
 Qed.
 
 (* the connection of the frame is not awaiting a CER, and the frame is one *)
@@ -1036,7 +1001,7 @@ Definition cer_cond (n : node) (cid : nat) (m : msg) : Prop :=
 
 Lemma trc_rm_handle n cid m :
   trc n (rm_handle n cid m)
-  \/ (cer_cond n cid m /\ rm_handle n cid m = (drop_origin n (m_hbh m) (m_e2e m), [])).
+  \/ (cer_cond n cid m /\ rm_handle n cid m = (drop_origin n cid (m_hbh m) (m_e2e m), [])).
 Proof.
   unfold rm_handle, cer_cond. destruct (m_req m), (m_cmd m).
   - destruct (m_origin m); try (left; apply trc_tr, tr_send).
@@ -1046,179 +1011,125 @@ Proof.
   - left. apply trc_tr, tr_recv_dpr.
   - left. apply trc_tr, tr_recv_app_request.
   - left. apply trc_recv_cea.
-  - left. unfold recv_dwa. apply trc_tr, tr_quiet; [kp|apply rq_nil].
+  - left. unfold recv_dwa. apply trc_tr, tr_quiet; [kt|apply rq_nil|reflexivity].
   - left. apply trc_recv_dpa.
   - left. apply trc_tr, tr_recv_app_answer.
 Qed.
 
-(* the origin bookkeeping of _receive_message = the ghost's binding of the request's pair *)
-Lemma Inv_request n g m : Inv n g -> Inv (rm_n0 n m) (ghost_request g m).
+(* the origin bookkeeping of _receive_message = the ghost's binding of the request's key *)
+Lemma Inv_request n g cid m : Inv n g -> Inv (rm_n0 n cid m) (ghost_request g cid m).
 Proof.
   intros [Hp Hw]. unfold rm_n0, rm_record, ghost_request, origin_key.
   destruct (m_origin m), (m_req m); try (split; assumption);
     (split; [cbn [fst set_waiting n_origin_waiting]; rewrite Hp; reflexivity|exact Hw]).
 Qed.
 
-Lemma lost_ext pw pw1 pw2 :
-  (forall k, List.In k (hosts pw) -> (List.In k (hosts pw2) <-> List.In k (hosts pw1))) -> lost pw pw2 = lost pw pw1.
-Proof.
-  intros H. unfold lost. f_equal. apply filter_ext_in. intros k Hk. f_equal.
-  apply Bool.eq_iff_eq_true. rewrite !mem_host_in. apply H. exact Hk.
-Qed.
-
 Lemma trc_inv n r g :
-  trc n r -> Inv n g -> Inv (fst r) (ghost_outs (ghost_drop g (gone_between n (fst r))) (snd r)).
+  trc n r -> Inv n g -> Inv (fst r) (ghost_outs (ghost_drop g n (closes (snd r))) (snd r)).
 Proof.
-  intros (n1 & o1 & o2 & E & K & R & [T _] & Hh) H. rewrite E, ghost_outs_app, (ghost_outs_rq _ R).
-  unfold gone_between. rewrite (lost_ext _ _ _ Hh). apply (T _ (Inv_keeps _ _ _ K H)).
+  intros (n1 & o1 & o2 & E & K & R & [T C]) H. cbn [snd] in C.
+  rewrite E, closes_app, C, List.app_nil_r, ghost_outs_app, (ghost_outs_rq _ R).
+  apply (T _ (Inv_keeps _ _ _ _ K H)).
 Qed.
 
-Lemma rm_n0_pw n m : n_peer_waiting (rm_n0 n m) = n_peer_waiting n.
+(* the ghost reads the host identities and the per-host table only *)
+Lemma ghost_drop_state g n n' cl :
+  n_conns n' = n_conns n -> n_peer_waiting n' = n_peer_waiting n -> ghost_drop g n' cl = ghost_drop g n cl.
+Proof. intros E1 E2. unfold ghost_drop, host_of. rewrite E1, E2. reflexivity. Qed.
+
+Lemma rm_n0_pw n cid m : n_peer_waiting (rm_n0 n cid m) = n_peer_waiting n.
 Proof. unfold rm_n0, rm_record. destruct (m_origin m), (m_req m); reflexivity. Qed.
 
-(* ---- an application's answer: its pair has left the per-host lists before the I/O thread closes anything;
-   the pair is no longer pending then, so it does not matter that the ghost reads the table of the state
-   before the answer ---- *)
-Definition pair_ne (q p : Z * Z) : Prop := (fst p =? fst q) && (snd p =? snd q) = false.
-
-Lemma mem_remove_zz q p l : pair_ne q p -> mem_zz q (remove_zz p l) = mem_zz q l.
-Proof.
-  unfold pair_ne, mem_zz, remove_zz. intros Hn. induction l as [|y l IH]; [reflexivity|]. cbn [List.filter List.existsb].
-  destruct ((fst p =? fst y) && (snd p =? snd y)) eqn:E; cbn [negb].
-  - rewrite IH. apply Bool.andb_true_iff in E. destruct E as [E1 E2]. apply Z.eqb_eq in E1, E2.
-    rewrite <- E1, <- E2. rewrite (Z.eqb_sym (fst q)), (Z.eqb_sym (snd q)), Hn. reflexivity.
-  - cbn [List.existsb]. rewrite IH. reflexivity.
-Qed.
-
-Lemma look_pw_remove pw h0 p k :
-  look (pw_remove pw h0 p) k = if String.eqb k h0 then remove_zz p (look pw k) else look pw k.
-Proof.
-  unfold look, pw_remove. induction pw as [|e r IH]; [cbn; destruct (String.eqb k h0); reflexivity|].
-  cbn [List.map List.find].
-  destruct (String.eqb (fst e) h0) eqn:E1; cbn [fst snd]; destruct (String.eqb (fst e) k) eqn:E2; try exact IH.
-  - apply String.eqb_eq in E1, E2. rewrite <- E2, E1, String.eqb_refl. reflexivity.
-  - apply String.eqb_eq in E2. rewrite <- E2, E1. reflexivity.
-Qed.
-
-Lemma lost_pw_remove q pw h0 p pw3 :
-  pair_ne q p -> mem_zz q (lost (pw_remove pw h0 p) pw3) = mem_zz q (lost pw pw3).
-Proof.
-  intros Hn. unfold lost. rewrite hosts_pw_remove, !mem_zz_flat.
-  induction (List.filter _ (hosts pw)) as [|k l IH]; [reflexivity|]. cbn [List.existsb]. rewrite IH, look_pw_remove.
-  destruct (String.eqb k h0); [rewrite (mem_remove_zz _ _ _ Hn)|]; reflexivity.
-Qed.
-
-Lemma ow_drop_psim p n n' pw3 ow :
-  psim p n n' -> (forall h e o, List.In (h, e, o) ow -> pair_ne (h, e) p) ->
-  ow_drop (lost (n_peer_waiting n') pw3) ow = ow_drop (lost (n_peer_waiting n) pw3) ow.
-Proof.
-  intros (_ & _ & _ & [E|[h0 E]]) Hn; rewrite E; [reflexivity|].
-  apply List.filter_ext_in. intros [[h e] o] Hin. rewrite (lost_pw_remove _ _ _ _ _ (Hn _ _ _ Hin)). reflexivity.
-Qed.
-
-Lemma ow_get_none ow hb ee h e o :
-  ow_get ow hb ee = None -> List.In (h, e, o) ow -> (h =? hb) && (e =? ee) = false.
-Proof.
-  induction ow as [|[[h' e'] o'] r IH]; intros G Hin; [destruct Hin|]. cbn [ow_get] in G.
-  destruct ((h' =? hb) && (e' =? ee)) eqn:E; [discriminate G|]. destruct Hin as [Hin|Hin]; [|exact (IH G Hin)].
-  injection Hin as -> -> _. exact E.
-Qed.
-
-Lemma record_answer_no_entry n hb ee h e o :
-  List.In (h, e, o) (n_origin_waiting (record_answer n hb ee)) -> pair_ne (h, e) (hb, ee).
-Proof.
-  unfold pair_ne. cbn [fst snd]. rewrite (Z.eqb_sym hb), (Z.eqb_sym ee). rewrite record_answer_eq.
-  destruct (ow_get (n_origin_waiting n) hb ee) eqn:G; [|apply ow_get_none; exact G].
-  cbn [n_origin_waiting set_waiting]. unfold ow_remove. intros Hin. apply List.filter_In in Hin. destruct Hin as [_ Hb].
-  destruct ((h =? hb) && (e =? ee)); [discriminate Hb|reflexivity].
-Qed.
-
-Lemma send_then_drop n cid a pw3 :
-  ow_drop (lost (n_peer_waiting (fst (send_message n cid a))) pw3) (n_origin_waiting (fst (send_message n cid a)))
-  = ow_drop (lost (n_peer_waiting n) pw3) (n_origin_waiting (fst (send_message n cid a))).
-Proof.
-  destruct (o_req a) eqn:Hr.
-  - replace (n_peer_waiting (fst (send_message n cid a))) with (n_peer_waiting n); [reflexivity|].
-    unfold send_message, queue_out. rewrite Hr. reflexivity.
-  - destruct (send_answer_eq n cid a Hr) as (n2 & K & E). rewrite E. cbn [fst]. rewrite record_answer_pw.
-    apply (ow_drop_psim _ _ _ _ _ K). intros h e o Hin. eapply record_answer_no_entry. exact Hin.
-Qed.
-
 (* ---- one frame ---- *)
-Lemma ghost_drop_same g n : ghost_drop g (gone_between n n) = g.
-Proof. unfold ghost_drop, gone_between. rewrite lost_same, ow_drop_nil. destruct g; reflexivity. Qed.
+Lemma ghost_drop_nil g n : ghost_drop g n [] = g.
+Proof. destruct g; reflexivity. Qed.
 
-(* forgetting a request in the node (drop_origin) = unbinding its pair in the ghost *)
-Lemma Inv_unbind n g h e : Inv n g -> Inv (drop_origin n h e) (ghost_unbind g h e).
+(* forgetting a request in the node (drop_origin) = unbinding its key in the ghost *)
+Lemma Inv_unbind n g cid h e : Inv n g -> Inv (drop_origin n cid h e) (ghost_unbind g cid h e).
 Proof. intros [Hp Hw]. split; [cbn [fst ghost_unbind]; rewrite Hp; reflexivity|exact Hw]. Qed.
 
-Lemma ow_remove_id ow hb ee :
-  (forall h e o, List.In (h, e, o) ow -> (h =? hb) && (e =? ee) = false) -> ow_remove ow hb ee = ow.
+Lemma ow_remove_id (ow : ow_t) cid hb ee :
+  (forall x, List.In x ow -> ow_key cid hb ee x = false) -> ow_remove ow cid hb ee = ow.
 Proof.
-  induction ow as [|[[h e] o] r IH]; intros H; [reflexivity|]. unfold ow_remove. cbn [List.filter].
-  rewrite (H h e o (or_introl eq_refl)). cbn [negb]. f_equal. apply IH. intros h' e' o' Hin. eapply H. right. exact Hin.
+  induction ow as [|x r IH]; intros H; [reflexivity|]. unfold ow_remove. cbn [List.filter].
+  rewrite (H x (or_introl eq_refl)). cbn [negb]. f_equal. apply IH. intros y Hin. apply H. right. exact Hin.
 Qed.
-Lemma Inv_unbind_id n g hb ee :
-  (forall h e o, List.In (h, e, o) (n_origin_waiting n) -> (h =? hb) && (e =? ee) = false) ->
-  Inv n g -> Inv n (ghost_unbind g hb ee).
+Lemma Inv_unbind_id n g cid hb ee :
+  (forall x, List.In x (n_origin_waiting n) -> ow_key cid hb ee x = false) ->
+  Inv n g -> Inv n (ghost_unbind g cid hb ee).
 Proof. intros Hn [Hp Hw]. split; [|exact Hw]. cbn [fst ghost_unbind]. rewrite Hp. apply ow_remove_id. exact Hn. Qed.
 
-Lemma send_answer_no_entry n cid a h e o :
-  o_req a = false -> List.In (h, e, o) (n_origin_waiting (fst (send_message n cid a))) ->
-  (h =? o_hbh a) && (e =? o_e2e a) = false.
+Lemma ow_get_none (ow : ow_t) cid hb ee x :
+  ow_get ow cid hb ee = None -> List.In x ow -> ow_key cid hb ee x = false.
+Proof.
+  induction ow as [|y r IH]; intros G Hin; [destruct Hin|]. cbn [ow_get] in G.
+  destruct (ow_key cid hb ee y) eqn:E; [discriminate G|]. destruct Hin as [Hin|Hin]; [subst y; exact E|exact (IH G Hin)].
+Qed.
+
+Lemma record_answer_no_entry n cid hb ee x :
+  List.In x (n_origin_waiting (record_answer n cid hb ee)) -> ow_key cid hb ee x = false.
+Proof.
+  rewrite record_answer_eq.
+  destruct (ow_get (n_origin_waiting n) cid hb ee) eqn:G; [|apply ow_get_none; exact G].
+  cbn [n_origin_waiting set_waiting]. unfold ow_remove. intros Hin. apply List.filter_In in Hin. destruct Hin as [_ Hb].
+  destruct (ow_key cid hb ee x); [discriminate Hb|reflexivity].
+Qed.
+
+Lemma send_answer_no_entry n cid a x :
+  o_req a = false -> List.In x (n_origin_waiting (fst (send_message n cid a))) ->
+  ow_key cid (o_hbh a) (o_e2e a) x = false.
 Proof.
   intros Hr Hin. destruct (send_answer_eq n cid a Hr) as (n2 & _ & E). rewrite E in Hin. cbn [fst] in Hin.
-  apply record_answer_no_entry in Hin. unfold pair_ne in Hin. cbn [fst snd] in Hin.
-  rewrite (Z.eqb_sym h), (Z.eqb_sym e). exact Hin.
+  apply record_answer_no_entry in Hin. exact Hin.
 Qed.
 
 (* an unexpected CER is not pending after its frame: it was answered with an error, or ignored and forgotten *)
 Lemma cer_no_entry n cid m :
   cer_cond n cid m ->
-  forall h e o, List.In (h, e, o) (n_origin_waiting (fst (receive_message n cid m))) ->
-                (h =? m_hbh m) && (e =? m_e2e m) = false.
+  forall x, List.In x (n_origin_waiting (fst (receive_message n cid m))) ->
+            ow_key cid (m_hbh m) (m_e2e m) x = false.
 Proof.
-  intros (c0 & Hc & Hs & Hr & Hcmd) h e o. rewrite receive_message_unfold.
-  destruct (if m_req m && _ then _ else _); [|apply (send_answer_no_entry _ _ (answer_of m _ _)); reflexivity].
-  destruct (rm_dup _ m); [apply (send_answer_no_entry _ _ (answer_of m _ _)); reflexivity|].
+  intros (c0 & Hc & Hs & Hr & Hcmd) x. rewrite receive_message_unfold.
+  destruct (if m_req m && _ then _ else _); [|apply (send_answer_no_entry _ cid (answer_of m _ _)); reflexivity].
+  destruct (rm_dup _ m); [apply (send_answer_no_entry _ cid (answer_of m _ _)); reflexivity|].
   unfold rm_handle. rewrite Hr, Hcmd.
-  destruct (m_origin m) eqn:Ho; try (apply (send_answer_no_entry _ _ (answer_of m _ _)); reflexivity).
+  destruct (m_origin m) eqn:Ho; try (apply (send_answer_no_entry _ cid (answer_of m _ _)); reflexivity).
   unfold recv_cer. rewrite rm_n0_get_conn, Hc, Hs. cbn [negb fst]. unfold drop_origin.
   cbn [n_origin_waiting set_waiting]. intros Hin. apply List.filter_In in Hin. destruct Hin as [_ Hb].
-  destruct ((h =? m_hbh m) && (e =? m_e2e m)); [discriminate Hb|reflexivity].
+  destruct (ow_key cid (m_hbh m) (m_e2e m) x); [discriminate Hb|reflexivity].
 Qed.
 
 Lemma handle_inv n0 cid m g0 r :
-  trc n0 r \/ (cer_cond n0 cid m /\ r = (drop_origin n0 (m_hbh m) (m_e2e m), [])) -> Inv n0 g0 ->
-  Inv (fst r) (ghost_outs (ghost_drop g0 (gone_between n0 (fst r))) (snd r))
+  trc n0 r \/ (cer_cond n0 cid m /\ r = (drop_origin n0 cid (m_hbh m) (m_e2e m), [])) -> Inv n0 g0 ->
+  Inv (fst r) (ghost_outs (ghost_drop g0 n0 (closes (snd r))) (snd r))
   \/ (cer_cond n0 cid m
-      /\ Inv (fst r) (ghost_unbind (ghost_outs (ghost_drop g0 (gone_between n0 (fst r))) (snd r)) (m_hbh m) (m_e2e m))).
+      /\ Inv (fst r) (ghost_unbind (ghost_outs (ghost_drop g0 n0 (closes (snd r))) (snd r)) cid (m_hbh m) (m_e2e m))).
 Proof.
   intros [T|[C E]] H; [left; apply trc_inv; assumption|right]. split; [exact C|]. subst r.
-  cbn [fst snd ghost_outs List.fold_left].
-  change (gone_between n0 (drop_origin n0 (m_hbh m) (m_e2e m))) with (gone_between n0 n0).
-  rewrite ghost_drop_same. apply Inv_unbind, H.
+  cbn [fst snd closes List.flat_map ghost_outs List.fold_left].
+  rewrite ghost_drop_nil. apply Inv_unbind, H.
 Qed.
 
 Lemma receive_message_inv n cid m g :
   Inv n g ->
   Inv (fst (receive_message n cid m))
-      (ghost_outs (ghost_drop (ghost_request g m) (gone_between n (fst (receive_message n cid m))))
+      (ghost_outs (ghost_drop (ghost_request g cid m) n (closes (snd (receive_message n cid m))))
                   (snd (receive_message n cid m)))
   \/ (cer_cond n cid m
       /\ Inv (fst (receive_message n cid m))
-             (ghost_unbind (ghost_outs (ghost_drop (ghost_request g m) (gone_between n (fst (receive_message n cid m))))
-                                       (snd (receive_message n cid m))) (m_hbh m) (m_e2e m))).
+             (ghost_unbind (ghost_outs (ghost_drop (ghost_request g cid m) n (closes (snd (receive_message n cid m))))
+                                       (snd (receive_message n cid m))) cid (m_hbh m) (m_e2e m))).
 Proof.
-  intros H. apply (Inv_request n g m) in H.
-  assert (Hcc : cer_cond (rm_n0 n m) cid m -> cer_cond n cid m) by (unfold cer_cond; rewrite rm_n0_get_conn; trivial).
-  assert (Hr : trc (rm_n0 n m) (receive_message n cid m)
-               \/ (cer_cond (rm_n0 n m) cid m
-                   /\ receive_message n cid m = (drop_origin (rm_n0 n m) (m_hbh m) (m_e2e m), []))).
+  intros H. apply (Inv_request n g cid m) in H.
+  assert (Hcc : cer_cond (rm_n0 n cid m) cid m -> cer_cond n cid m) by (unfold cer_cond; rewrite rm_n0_get_conn; trivial).
+  assert (Hr : trc (rm_n0 n cid m) (receive_message n cid m)
+               \/ (cer_cond (rm_n0 n cid m) cid m
+                   /\ receive_message n cid m = (drop_origin (rm_n0 n cid m) cid (m_hbh m) (m_e2e m), []))).
   { rewrite receive_message_unfold.
-    destruct (if m_req m && g_validate (n_cfg (rm_n0 n m)) then m_missing m else []); [|left; apply trc_tr, tr_send].
-    destruct (rm_dup (rm_n0 n m) m); [left; apply trc_tr, tr_send|apply trc_rm_handle]. }
-  destruct (handle_inv _ cid m _ _ Hr H) as [A|[C A]]; unfold gone_between in *; rewrite (rm_n0_pw n m) in A;
+    destruct (if m_req m && g_validate (n_cfg (rm_n0 n cid m)) then m_missing m else []); [|left; apply trc_tr, tr_send].
+    destruct (rm_dup (rm_n0 n cid m) m); [left; apply trc_tr, tr_send|apply trc_rm_handle]. }
+  destruct (handle_inv _ cid m _ _ Hr H) as [A|[C A]];
+    rewrite (ghost_drop_state _ n (rm_n0 n cid m) _ (rm_n0_conns n cid m) (rm_n0_pw n cid m)) in A;
     [left; exact A|right; split; [apply Hcc, C|exact A]].
 Qed.
 
@@ -1235,15 +1146,15 @@ Qed.
 Lemma dispatch_inv n cid m g :
   Inv n g ->
   Inv (fst (dispatch n cid m))
-      (let g3 := ghost_outs (ghost_drop (if received n cid m then ghost_request g m else g)
-                                        (gone_between n (fst (dispatch n cid m)))) (snd (dispatch n cid m)) in
-       if cer_unexpected n cid m then ghost_unbind g3 (m_hbh m) (m_e2e m) else g3).
+      (let g3 := ghost_outs (ghost_drop (if received n cid m then ghost_request g cid m else g)
+                                        n (closes (snd (dispatch n cid m)))) (snd (dispatch n cid m)) in
+       if cer_unexpected n cid m then ghost_unbind g3 cid (m_hbh m) (m_e2e m) else g3).
 Proof.
   intros H. cbv zeta. unfold dispatch, received.
   destruct (get_conn n cid) as [c|] eqn:Hc;
-    [|unfold cer_unexpected; rewrite Hc; cbn [fst snd]; rewrite ghost_drop_same; exact H].
+    [|unfold cer_unexpected; rewrite Hc; cbn [fst snd closes List.flat_map]; rewrite ghost_drop_nil; exact H].
   destruct (gate_passes c m) eqn:Hg;
-    [|unfold cer_unexpected; rewrite Hc, Hg; cbn [fst snd andb]; rewrite ghost_drop_same; exact H].
+    [|unfold cer_unexpected; rewrite Hc, Hg; cbn [fst snd andb closes List.flat_map]; rewrite ghost_drop_nil; exact H].
   pose proof (cer_cond_iff n cid m c Hc Hg) as Hi.
   destruct (receive_message_inv n cid m g H) as [A|[C A]]; destruct (cer_unexpected n cid m).
   - apply Inv_unbind_id; [apply cer_no_entry, Hi; reflexivity|exact A].
@@ -1259,19 +1170,27 @@ Proof.
   rewrite dispatch_all_cons. cbn [fst ghost_frames]. apply IH. apply (dispatch_inv n cid m g H).
 Qed.
 
-Lemma read_state_k n ds cid : keeps n (read_state n ds cid).
-Proof. unfold read_state. eapply keeps_trans; [apply io_iteration_k|]. kp. Qed.
+Lemma read_state_k n ds cid : keeps n (closes (snd (fst (io_iteration n ds)))) (read_state n ds cid).
+Proof.
+  unfold read_state. pose proof (io_iteration_k n ds) as K. destruct (io_iteration n ds) as [[n1 o1] d1].
+  cbn [fst snd] in *. apply (kc_post n n1 o1); [exact K|]. unfold upd_last_read. s4.
+Qed.
 
 Lemma step_inv_g n ds e g : Inv n g -> Inv (fst (step n ds e)) (ghost_step n ds e g).
 Proof.
   intros H.
   assert (Hother : (forall cid ms, e <> ERecv cid ms) -> (forall i m, e <> EAppAnswer i m) ->
+                   (forall h, e = EAccept h -> n_stopping n = false) ->
                    Inv (fst (step n ds e))
-                       (ghost_drop (ghost_outs g (snd (step n ds e))) (gone_between n (fst (step n ds e))))).
-  { intros H1 H2. rewrite (ghost_outs_rq _ (step_rq n ds e H1 H2)).
+                       (ghost_drop (ghost_outs g (snd (step n ds e))) n (closes (snd (step n ds e))))).
+  { intros H1 H2 H3. rewrite (ghost_outs_rq _ (step_rq n ds e H1 H2)).
     apply Inv_keeps; [apply step_k; assumption|exact H]. }
   destruct e as [hbh0|cid ms|cid|cid hard|cid ok|cid b|dt|i m|i m realm pick tmo|force|tclose tend|];
     try (apply Hother; intros; discriminate).
+  - (* EAccept *)
+    cbn [ghost_step]. destruct (n_stopping n) eqn:Hs.
+    + cbn [step]. rewrite Hs. eapply Inv_kept; [|exact H]. kt.
+    + apply Hother; intros; try discriminate. reflexivity.
   - (* ERecv *)
     cbn [ghost_step]. destruct (get_conn n cid) as [c|] eqn:Hc.
     + cbv zeta. rewrite (step_recv_eq n ds cid ms c Hc). cbn [fst].
@@ -1281,13 +1200,12 @@ Proof.
   - (* EAppAnswer *)
     cbn [ghost_step]. clear Hother. cbn [step].
     pose proof (route_answer_k n m) as K. destruct (route_answer n m) as [[cid|] n1]; cbn [fst snd] in K |- *.
-    + pose proof (tr_send n1 cid m) as [T _]. pose proof (send_then_drop n1 cid m) as Hd.
+    + pose proof (tr_send n1 cid m) as [T C].
       destruct (send_message n1 cid m) as [n2 o2].
       pose proof (settle_app'_k n2 ds) as K3. pose proof (settle_app'_rq n2 ds) as R3.
       destruct (settle_app' n2 ds) as [n3 o3]. cbn [fst snd] in *.
-      rewrite ghost_outs_app, (ghost_outs_rq _ R3).
-      pose proof (T _ (Inv_kept _ _ _ K H)) as H2. pose proof (Inv_keeps _ _ _ K3 H2) as H3.
-      unfold ghost_drop, gone_between in *. destruct H2 as [H2 _]. rewrite H2, Hd in H3. rewrite H2. exact H3.
+      rewrite closes_app, C, ghost_outs_app, (ghost_outs_rq _ R3). cbn [List.app].
+      apply (Inv_keeps _ _ _ _ K3). apply T. eapply Inv_kept; eassumption.
     + destruct K as (K1 & K2 & K3). destruct H as [Hp Hw]. unfold Inv. rewrite K1, K2, K3.
       destruct (waits n (o_hbh m, o_e2e m)); (split; [|exact Hw]); [cbn [fst ghost_unbind]; rewrite Hp|exact Hp]; reflexivity.
 Qed.
@@ -1386,12 +1304,12 @@ Proof.
   intros Hw.
   assert (Hreach : reach n0 (fst (run n0 evs))) by (exists evs; split; [exact Hw|reflexivity]).
   destruct (C19_windows_bounded _ _ Hreach) as (_ & Hnd & _).
-  destruct (keeps_spec _ _ (read_state_k (fst (run n0 evs)) ds cid)) as (K2 & _). rewrite K2.
+  destruct (keeps_spec _ _ _ (read_state_k (fst (run n0 evs)) ds cid)) as (K2 & _). rewrite K2.
   rewrite (C17_sa_mem_get _ o e Hnd), (C17_history_window n0 evs o Hw). reflexivity.
 Qed.
 
 Lemma read_state_cfg n0 evs ds cid : n_cfg (read_state (fst (run n0 evs)) ds cid) = n_cfg n0.
-Proof. destruct (keeps_spec _ _ (read_state_k (fst (run n0 evs)) ds cid)) as (_ & K3 & _). rewrite K3. apply run_cfg. Qed.
+Proof. destruct (keeps_spec _ _ _ (read_state_k (fst (run n0 evs)) ds cid)) as (_ & K3 & _). rewrite K3. apply run_cfg. Qed.
 
 (* ====================================================================== *)
 (* 7. C17: duplicates are rejected, nothing else is                         *)
@@ -1510,7 +1428,7 @@ Proof.
         by (exists []; split; [symmetry; apply List.app_nil_r|constructor]).
       destruct x as [cid a| | | | | | |]; try exact Hnil. cbn [ghost_out].
       destruct (o_req a) eqn:Hr; [exact Hnil|]. unfold ghost_answer.
-      destruct (ow_get (fst g) (o_hbh a) (o_e2e a)) as [o|]; [|exact Hnil].
+      destruct (ow_get (fst g) cid (o_hbh a) (o_e2e a)) as [o|]; [|exact Hnil].
       exists [(o, o_e2e a)]. split; [reflexivity|]. constructor; [|constructor].
       exists cid, a. split; [left; reflexivity|]. split; [exact Hr|reflexivity]. }
     destruct H0 as (ad0 & E0 & F0). exists (ad0 ++ ad)%list. split.
@@ -1519,7 +1437,7 @@ Proof.
       eapply List.Forall_impl; [|exact F]. intros p. apply from_outs_incl. intros y Hy. right. exact Hy.
 Qed.
 
-Lemma ghost_request_hist g m : snd (ghost_request g m) = snd g.
+Lemma ghost_request_hist g cid m : snd (ghost_request g cid m) = snd g.
 Proof. unfold ghost_request. destruct (m_req m); [|reflexivity]. destruct (origin_key m); reflexivity. Qed.
 
 Lemma ghost_frames_hist cid ms : forall n g,
@@ -1529,11 +1447,11 @@ Proof.
   induction ms as [|m r IH]; intros n g.
   - exists []. split; [symmetry; apply List.app_nil_r|constructor].
   - rewrite dispatch_all_cons. cbn [ghost_frames snd].
-    set (g1 := if received n cid m then ghost_request g m else g).
+    set (g1 := if received n cid m then ghost_request g cid m else g).
     assert (E0 : snd g1 = snd g) by (unfold g1; destruct (received n cid m); [apply ghost_request_hist|reflexivity]).
-    set (g2 := ghost_drop g1 (gone_between n (fst (dispatch n cid m)))).
+    set (g2 := ghost_drop g1 n (closes (snd (dispatch n cid m)))).
     destruct (ghost_outs_hist (snd (dispatch n cid m)) g2) as (a1 & E1 & F1).
-    set (g4 := if cer_unexpected n cid m then ghost_unbind (ghost_outs g2 (snd (dispatch n cid m))) (m_hbh m) (m_e2e m)
+    set (g4 := if cer_unexpected n cid m then ghost_unbind (ghost_outs g2 (snd (dispatch n cid m))) cid (m_hbh m) (m_e2e m)
                else ghost_outs g2 (snd (dispatch n cid m))).
     assert (E4 : snd g4 = snd (ghost_outs g2 (snd (dispatch n cid m)))) by (unfold g4; destruct (cer_unexpected n cid m); reflexivity).
     destruct (IH (fst (dispatch n cid m)) g4) as (a2 & E2 & F2).
@@ -1549,17 +1467,19 @@ Lemma ghost_step_hist n ds e g :
 Proof.
   assert (Hnil : exists added, snd g = (snd g ++ added)%list /\ List.Forall (from_outs (snd (step n ds e))) added)
     by (exists []; split; [symmetry; apply List.app_nil_r|constructor]).
-  destruct e; try (cbn [ghost_step ghost_drop snd]; apply ghost_outs_hist);
-    [|cbn [ghost_step]; destruct (fst (route_answer n m));
-      [cbn [ghost_drop snd]; apply ghost_outs_hist|destruct (waits n (o_hbh m, o_e2e m)); exact Hnil]].
-  cbn [ghost_step]. destruct (get_conn n cid) as [c|] eqn:Hc.
-  - cbv zeta. cbn [ghost_drop snd].
-    destruct (ghost_frames_hist cid ms (read_state n ds cid) (ghost_drop g (gone_between n (read_state n ds cid))))
-      as (ad & E & F).
-    exists ad. split; [exact E|]. rewrite (step_recv_eq n ds cid ms c Hc). cbn [snd].
-    eapply List.Forall_impl; [|exact F]. intros p. apply from_outs_incl.
-    intros y Hy. apply List.in_or_app. right. apply List.in_or_app. left. exact Hy.
-  - exists []. split; [symmetry; apply List.app_nil_r|constructor].
+  destruct e as [hbh0|cid ms|cid|cid hard|cid ok|cid b|dt|i m|i m realm pick tmo|force|tclose tend|];
+    try (cbn [ghost_step ghost_drop snd]; apply ghost_outs_hist).
+  - cbn [ghost_step]. destruct (n_stopping n); [exact Hnil|]. cbn [ghost_drop snd]. apply ghost_outs_hist.
+  - cbn [ghost_step]. destruct (get_conn n cid) as [c|] eqn:Hc.
+    + cbv zeta. cbn [ghost_drop snd].
+      destruct (ghost_frames_hist cid ms (read_state n ds cid)
+                  (ghost_drop g n (closes (snd (fst (io_iteration n ds)))))) as (ad & E & F).
+      exists ad. split; [exact E|]. rewrite (step_recv_eq n ds cid ms c Hc). cbn [snd].
+      eapply List.Forall_impl; [|exact F]. intros p. apply from_outs_incl.
+      intros y Hy. apply List.in_or_app. right. apply List.in_or_app. left. exact Hy.
+    + exists []. split; [symmetry; apply List.app_nil_r|constructor].
+  - cbn [ghost_step]. destruct (fst (route_answer n m));
+      [cbn [ghost_drop snd]; apply ghost_outs_hist|destruct (waits n (o_hbh m, o_e2e m)); exact Hnil].
 Qed.
 
 Lemma ghost_run_hist evs : forall n g,
@@ -1693,17 +1613,53 @@ Proof.
   exists c, pre, post. repeat split; assumption.
 Qed.
 
-(* the attribution rule when a pair is reused: "p" and then "q" send a request with the same (hop-by-hop, end-to-end) pair (20, 200) before the first is answered; the application's answer goes out to "p" (connection 0) but is attributed to "q", by the ghost and by the node alike; afterwards a T-flagged repeat from "p" is delivered again and one from "q" is rejected.  Excluded by "unanswered requests have pairwise distinct pairs" *)
+(* the attribution rule when a key is reused: connection 0 (of "p") carries a request of origin "p" and then, before
+   the first is answered, a request of origin "q" with the same (hop-by-hop, end-to-end) pair (20, 200): the later
+   request takes the key (0, 20, 200) over; the application's answer goes out on connection 0 and is attributed to
+   "q", by the ghost and by the node alike; afterwards a T-flagged repeat of origin "p" is delivered again and one of
+   origin "q" is rejected.  Excluded by "unanswered requests of a connection have pairwise distinct pairs" *)
 Definition hx_evs2 : list (dials * event) :=
-  (hx_evs ++ [([], ERecv 0 [hx_req "p" 20 200 false]); ([], ERecv 1 [hx_req "q" 20 200 false]);
+  (hx_evs ++ [([], ERecv 0 [hx_req "p" 20 200 false]); ([], ERecv 0 [hx_req "q" 20 200 false]);
               ([], EAppAnswer 0 (hx_ans 20 200))])%list.
 Example C17_history_example_pair_reuse :
   let n2 := fst (run hx_n0 hx_evs2) in
-  List.nth 12 (List.map snd (trace hx_n0 hx_evs2)) [] = [OQueue 0%nat (hx_ans 20 200); OSend 0%nat (hx_ans 20 200)]
+  pending hx_n0 (List.firstn 11 hx_evs2) = [(0%nat, 20, 200, "p"%string)]
+  /\ pending hx_n0 (List.firstn 12 hx_evs2) = [(0%nat, 20, 200, "q"%string)]
+  /\ List.nth 12 (List.map snd (trace hx_n0 hx_evs2)) [] = [OQueue 0%nat (hx_ans 20 200); OSend 0%nat (hx_ans 20 200)]
   /\ answered hx_n0 hx_evs2 "p"%string = [1; 101; 102; 103]
   /\ answered hx_n0 hx_evs2 "q"%string = [2; 200]
+  /\ pending hx_n0 hx_evs2 = []
   /\ n_sent_answers n2 = [("p"%string, [102; 103]); ("q"%string, [2; 200])]
   /\ snd (step n2 [] (ERecv 0 [hx_req "p" 21 200 true])) = [ODeliver 0%nat (hx_req "p" 21 200 true)]
+  /\ snd (step n2 [] (ERecv 1 [hx_req "q" 22 200 true])) = [OQueue 1%nat (hx_5012 22 200); OSend 1%nat (hx_5012 22 200)].
+Proof. vm_compute. repeat split. Qed.
+
+(* the same pair on two connections (hop-by-hop identifiers are unique per connection only): "p" on connection 0 and
+   "q" on connection 1 each send a request with the pair (20, 200); both are pending at once, under their own
+   keys (0, 20, 200) and (1, 20, 200).  The application answers both: the first answer goes out on connection 0 and
+   is attributed to "p", the second on connection 1 and is attributed to "q" (with the table keyed by the pair alone
+   the second request took the pair over: the first answer went to "q" and the second to nobody).  Afterwards a
+   T-flagged repeat of 200 is rejected for either origin *)
+Definition hx_evs2b : list (dials * event) :=
+  (hx_evs ++ [([], ERecv 0 [hx_req "p" 20 200 false]); ([], ERecv 1 [hx_req "q" 20 200 false]);
+              ([], EAppAnswer 0 (hx_ans 20 200)); ([], EAppAnswer 0 (hx_ans 20 200))])%list.
+Example C17_history_example_same_pair_two_connections :
+  let n2 := fst (run hx_n0 hx_evs2b) in
+  pending hx_n0 (List.firstn 12 hx_evs2b) = [(0%nat, 20, 200, "p"%string); (1%nat, 20, 200, "q"%string)]
+  /\ n_origin_waiting (fst (run hx_n0 (List.firstn 12 hx_evs2b)))
+     = [(0%nat, 20, 200, "p"%string); (1%nat, 20, 200, "q"%string)]
+  /\ n_peer_waiting (fst (run hx_n0 (List.firstn 12 hx_evs2b))) = [("p"%string, [(20, 200)]); ("q"%string, [(20, 200)])]
+  /\ List.nth 12 (List.map snd (trace hx_n0 hx_evs2b)) [] = [OQueue 0%nat (hx_ans 20 200); OSend 0%nat (hx_ans 20 200)]
+  /\ pending hx_n0 (List.firstn 13 hx_evs2b) = [(1%nat, 20, 200, "q"%string)]
+  /\ answered hx_n0 (List.firstn 13 hx_evs2b) "p"%string = [1; 101; 102; 103; 200]
+  /\ answered hx_n0 (List.firstn 13 hx_evs2b) "q"%string = [2]
+  /\ List.nth 13 (List.map snd (trace hx_n0 hx_evs2b)) [] = [OQueue 1%nat (hx_ans 20 200); OSend 1%nat (hx_ans 20 200)]
+  /\ pending hx_n0 hx_evs2b = []
+  /\ answered hx_n0 hx_evs2b "p"%string = [1; 101; 102; 103; 200]
+  /\ answered hx_n0 hx_evs2b "q"%string = [2; 200]
+  /\ n_origin_waiting n2 = []
+  /\ n_sent_answers n2 = [("p"%string, [103; 200]); ("q"%string, [2; 200])]
+  /\ snd (step n2 [] (ERecv 0 [hx_req "p" 21 200 true])) = [OQueue 0%nat (hx_5012 21 200); OSend 0%nat (hx_5012 21 200)]
   /\ snd (step n2 [] (ERecv 1 [hx_req "q" 22 200 true])) = [OQueue 1%nat (hx_5012 22 200); OSend 1%nat (hx_5012 22 200)].
 Proof. vm_compute. repeat split. Qed.
 
@@ -1715,8 +1671,8 @@ Definition hx_evs3a : list (dials * event) := (hx_evs ++ [([], ERecv 0 [hx_req "
 Definition hx_evs3 : list (dials * event) := (hx_evs3a ++ [([], EPeerClose 0)])%list.
 Definition hx_evs3b : list (dials * event) := (hx_evs3 ++ [([], EAppAnswer 0 (hx_ans 30 300))])%list.
 Example C17_history_example_close :
-  pending hx_n0 hx_evs3a = [(30, 300, "p"%string)]
-  /\ n_origin_waiting (fst (run hx_n0 hx_evs3a)) = [(30, 300, "p"%string)]
+  pending hx_n0 hx_evs3a = [(0%nat, 30, 300, "p"%string)]
+  /\ n_origin_waiting (fst (run hx_n0 hx_evs3a)) = [(0%nat, 30, 300, "p"%string)]
   /\ n_peer_waiting (fst (run hx_n0 hx_evs3a)) = [("p"%string, [(30, 300)])]
   /\ List.nth 11 (List.map snd (trace hx_n0 hx_evs3)) [] = [OClose 0%nat R_GONE]
   /\ pending hx_n0 hx_evs3 = []
@@ -1732,7 +1688,7 @@ Proof. vm_compute. repeat split. Qed.
 Definition hx_evs4 : list (dials * event) := (hx_evs ++ [([], ERecv 0 [ce true "p" 40])])%list.
 Example C17_history_example_cer_ignored :
   cer_unexpected (read_state hx_n [] 0) 0 (ce true "p" 40) = true
-  /\ fst (ghost_request (ghost_run hx_n0 ghost0 hx_evs) (ce true "p" 40)) = [(40, 40, "p"%string)]
+  /\ fst (ghost_request (ghost_run hx_n0 ghost0 hx_evs) 0 (ce true "p" 40)) = [(0%nat, 40, 40, "p"%string)]
   /\ List.nth 10 (List.map snd (trace hx_n0 hx_evs4)) [ONotRoutable] = []
   /\ pending hx_n0 hx_evs4 = []
   /\ n_origin_waiting (fst (run hx_n0 hx_evs4)) = []
@@ -1745,12 +1701,12 @@ Proof. vm_compute. repeat split. Qed.
 Definition hx_evs5a : list (dials * event) := (hx_evs3a ++ [([], ERecv 0 [dpr "p" 50])])%list.
 Definition hx_evs5 : list (dials * event) := (hx_evs5a ++ [([], EAppAnswer 0 (hx_ans 30 300))])%list.
 Example C17_history_example_answer_not_routable :
-  pending hx_n0 hx_evs5a = [(30, 300, "p"%string)]
-  /\ n_origin_waiting (fst (run hx_n0 hx_evs5a)) = [(30, 300, "p"%string)]
+  pending hx_n0 hx_evs5a = [(0%nat, 30, 300, "p"%string)]
+  /\ n_origin_waiting (fst (run hx_n0 hx_evs5a)) = [(0%nat, 30, 300, "p"%string)]
   /\ n_peer_waiting (fst (run hx_n0 hx_evs5a)) = [("p"%string, [(30, 300)])]
   /\ List.map (fun c => (c_id c, c_state c, c_host c)) (n_conns (fst (run hx_n0 hx_evs5a)))
      = [(0%nat, SDisconnecting, "p"%string); (1%nat, SReady, "q"%string)]
-  /\ waits (fst (run hx_n0 hx_evs5a)) (30, 300) = true
+  /\ waits (fst (run hx_n0 hx_evs5a)) (30, 300) = Some 0%nat
   /\ fst (route_answer (fst (run hx_n0 hx_evs5a)) (hx_ans 30 300)) = None
   /\ List.nth 12 (List.map snd (trace hx_n0 hx_evs5)) [] = [ONotRoutable]
   /\ pending hx_n0 hx_evs5 = []
@@ -1775,6 +1731,7 @@ Print Assumptions HistoryExample.C17_history_example_steps.
 Print Assumptions HistoryExample.C17_history_example_theorem.
 Print Assumptions HistoryExample.C17_history_example_theorem_evicted.
 Print Assumptions HistoryExample.C17_history_example_pair_reuse.
+Print Assumptions HistoryExample.C17_history_example_same_pair_two_connections.
 Print Assumptions HistoryExample.C17_history_example_close.
 Print Assumptions HistoryExample.C17_history_example_cer_ignored.
 Print Assumptions HistoryExample.C17_history_example_answer_not_routable.
